@@ -7,6 +7,7 @@ sys.path.insert(0, os.path.join(HERE, '..'))
 sys.path.insert(0, os.path.join(HERE, '..', '..', 'tools'))
 import common
 import native
+import cxx2c
 from cxx2c import Rewriter, CClass, slice_block, tag_loops, ExtractionBreak, load
 from prove import Job
 
@@ -17,6 +18,194 @@ RC = 'include/oneapi/tbb/detail/_range_common.h'
 PT = 'include/oneapi/tbb/partitioner.h'
 PF = 'include/oneapi/tbb/parallel_for.h'
 FC = ['size_type', 'size_t', 'float', 'double', 'Value', 'Index', 'depth_t']
+
+PFE = 'include/oneapi/tbb/parallel_for_each.h'
+PI = 'include/oneapi/tbb/parallel_invoke.h'
+ND = 'include/oneapi/tbb/blocked_nd_range.h'
+
+
+# ---------------------------------------------------------------------------------------------------------------------
+# helpers for member functions of task classes (same idiom as specs/C06: tools/ is not touched)
+# ---------------------------------------------------------------------------------------------------------------------
+def targs(s):
+    """split template / call arguments at top-level commas (angle brackets nest too)"""
+    out, d, cur = [], 0, []
+    for ch in s:
+        if ch in '(<[{':
+            d += 1
+        elif ch in ')>]}':
+            d -= 1
+        if ch == ',' and d == 0:
+            out.append(''.join(cur).strip())
+            cur = []
+        else:
+            cur.append(ch)
+    if ''.join(cur).strip() or out:
+        out.append(''.join(cur).strip())
+    return out
+
+
+def class_scope(text):
+    """class text with everything nested deeper than class scope blanked"""
+    mk = cxx2c.mask(text)
+    o = mk.find('{')
+    out, d = [], 0
+    for i, ch in enumerate(mk):
+        if i < o:
+            out.append(' ')
+            continue
+        if ch == '{':
+            d += 1
+        out.append(text[i] if d == 1 and ch not in '{}' else ' ')
+        if ch == '}':
+            d -= 1
+    return ''.join(out)
+
+
+def member_order(ctext, names, cname):
+    """declared order of the listed data members (C++ initialises bases first, then members in DECLARED order)"""
+    cs = class_scope(ctext)
+    pos = {}
+    for n in names:
+        hits = [m.start() for m in re.finditer(r'(?<![\w.>])%s\s*(?:\[[^\]]*\])?\s*(?:=[^;()]*)?;' % n, cs)]
+        if len(hits) != 1:
+            raise ExtractionBreak('%s: member %s declared %d times' % (cname, n, len(hits)))
+        pos[n] = hits[0]
+    return sorted(names, key=lambda n: pos[n])
+
+
+def nsdmi(ctext, names):
+    """default member initialisers `name{expr};` / `name = expr;` of the class"""
+    out = {}
+    for n in names:
+        m = re.search(r'(?<![\w.>])%s\s*\{([^{}]*)\}\s*;' % n, ctext) or re.search(r'(?<![\w.>])%s\s*=\s*([^;{}()]*);' % n, class_scope(ctext))
+        if m:
+            out[n] = m.group(1).strip()
+    return out
+
+
+def slice_ctor(rel, sig, within, nth_within=0):
+    """constructor slice: from the match of `sig` to the close of the constructor BODY, skipping brace initialisers of the init list"""
+    text = load(rel)
+    mk = cxx2c.mask(text)
+    ws = list(re.finditer(within, mk))
+    if len(ws) <= nth_within:
+        raise ExtractionBreak('%s: enclosing block %r not found' % (rel, within))
+    w = ws[nth_within]
+    lo = w.start()
+    hi = cxx2c.match_close(mk, mk.find('{', w.end() - 1)) + 1
+    hits = list(re.finditer(sig, mk[lo:hi]))
+    if len(hits) != 1:
+        raise ExtractionBreak('%s: constructor %r found %d times' % (rel, sig, len(hits)))
+    st = lo + hits[0].start()
+    c = cxx2c.match_close(mk, mk.find('(', st), '(', ')')
+    j, depth = c + 1, 0
+    while j < hi:
+        ch = mk[j]
+        if ch == '(':
+            depth += 1
+        elif ch == ')':
+            depth -= 1
+        elif ch == ';' and depth == 0:
+            break
+        elif ch == '{' and depth == 0:
+            k = j - 1
+            while mk[k].isspace():
+                k -= 1
+            if mk[k] in ')}':
+                e = cxx2c.match_close(mk, j)
+                return cxx2c.Slice(rel, st, e + 1, cxx2c.strip_comments(text[st:e + 1]), cxx2c.line_of(text, st))
+            j = cxx2c.match_close(mk, j)
+        j += 1
+    raise ExtractionBreak('%s: constructor %r has no body' % (rel, sig))
+
+
+def ctor_c(rw, sl, csig, order, bases=(), defaults=None, cname='', tag=''):
+    """constructor slice -> `void csig { INIT_<m>_<argc>(self, args); ... body }`; init items in base-then-declared order;
+    members that the list does not mention take their default member initialiser (if the class text has one)"""
+    text = sl.text
+    mk = cxx2c.mask(text)
+    o = mk.find('(')
+    c = cxx2c.match_close(mk, o, '(', ')')
+    j, depth, b = c + 1, 0, None
+    while j < len(mk):
+        ch = mk[j]
+        if ch == '(':
+            depth += 1
+        elif ch == ')':
+            depth -= 1
+        elif ch == '{' and depth == 0:
+            k = j - 1
+            while mk[k].isspace():
+                k -= 1
+            if mk[k] in ')}':
+                b = j
+                break
+            j = cxx2c.match_close(mk, j)
+        j += 1
+    if b is None:
+        raise ExtractionBreak('%s: constructor body not found' % cname)
+    between = text[c + 1:b]
+    items = []
+    if between.strip():
+        if not between.strip().startswith(':'):
+            raise ExtractionBreak('%s: unexpected text after the constructor parameter list: %r' % (cname, between.strip()[:60]))
+        for it in targs(between.strip()[1:]):
+            im = re.match(r'(?s)\s*(\w+)\s*[\(\{](.*)[\)\}]\s*$', it)
+            if not im:
+                raise ExtractionBreak('%s: cannot parse init-list item %r' % (cname, it))
+            items.append((im.group(1), [a for a in targs(im.group(2)) if a != '']))
+    names = [n for n, _ in items]
+    for n in names:
+        if n not in order and n not in bases:
+            raise ExtractionBreak('%s: init-list names %s, which is neither a harvested member nor a base' % (cname, n))
+    for n, ex in (defaults or {}).items():
+        if n not in names:
+            items.append((n, [ex]))
+    seq = list(bases) + list(order)
+    items.sort(key=lambda x: seq.index(x[0]))
+    init = ''.join('    INIT_%s%s_%d(self%s);\n' % (tag, n, len(a), ''.join(', ' + x for x in a)) for n, a in items)
+    k = 'ctor-init-list -> INIT_<member>_<argc>() in base-then-declared order'
+    rw.fired[k] = rw.fired.get(k, 0) + len(items)
+    return 'void %s {\n%s%s' % (csig, init, text[b + 1:])
+
+
+def refs(rw, t, names, minc=0):
+    """reference parameters became pointers: every use `p` -> `(*p)`"""
+    b = cxx2c.mask(t).find('{')          # the (already C) signature is left alone
+    head, t = t[:b], t[b:]
+    for n in names:
+        t = rw.sub(t, r'(?<![\w.>])%s\b(?!\s*\()' % n, '(*%s)' % n, minc, name='ref-param %s -> (*%s)' % (n, n))
+    return head + t
+
+
+def ref_members(rw, t, names):
+    """reference data members are pointers in the C struct: self->m -> (*self->m)"""
+    return rw.sub(t, r'(?<![\w.>])self->(%s)\b' % '|'.join(names), r'(*self->\1)', 0, name='reference member -> (*self->m)')
+
+
+def body_of(t):
+    """function text from its first '{' (the signature is replaced by the caller)"""
+    return t[cxx2c.mask(t).find('{'):]
+
+
+def task_calls(rw, t):
+    """plumbing shared by the task classes of parallel_for_each.h / parallel_invoke.h / parallel_for.h"""
+    t = rw.sub(t, r'small_object_allocator alloc\{\};', 'small_object_allocator alloc; ALLOCATOR_INIT(alloc);', 0, name='value-initialised allocator')
+    t = rw.sub(t, r'\bthis->', 'self->', 0, name='this->')
+    t = rw.sub(t, r'\(\*this\)', '(*self)', 0, name='*this')
+    t = rw.sub(t, r'\*this\b', '(*self)', 0, name='*this')
+    t = rw.sub(t, r'\bthis\b', 'self', 0, name='this')
+    return t
+
+
+def wait_ops(rw, t):
+    """X.reserve() / X.release() / P->reserve() / P->release() on wait contexts -> WAIT_RESERVE(lvalue[, n]) / WAIT_RELEASE(lvalue[, n]) (callee stubs: wait_context)"""
+    lv = r'((?:\(\*self->\w+\)|self->\w+|\w+))'
+    t = rw.sub(t, lv + r'\.(reserve|release)\(\s*\)', lambda m: 'WAIT_%s(%s)' % (m.group(2).upper(), m.group(1)), 0, name='wait_context::reserve/release -> WAIT_RESERVE/WAIT_RELEASE')
+    t = rw.sub(t, lv + r'\.(reserve|release)\(\s*(\w+)\s*\)', lambda m: 'WAIT_%s_N(%s, %s)' % (m.group(2).upper(), m.group(1), m.group(3)), 0, name='wait_context::reserve/release(n) -> WAIT_*_N')
+    t = rw.sub(t, lv + r'->(reserve|release)\(\s*\)', lambda m: 'WAIT_%s(*%s)' % (m.group(2).upper(), m.group(1)), 0, name='vertex->reserve/release -> WAIT_RESERVE/WAIT_RELEASE')
+    return t
 
 
 def extract(ctx):
@@ -96,6 +285,9 @@ def extract(ctx):
     ap = CClass(PT, r'class auto_partition_type: public dynamic_grainsize_mode<adaptive_mode<auto_partition_type> > \{', 'part', rw=rw)
     ap.members = am.members
     out.append(ap.convert(ap.method(r'bool is_divisible\(\)'), 'auto_is_divisible', pre=PRE))
+    t = ap.convert(ap.method(r'bool check_for_demand\(Task& t\)'), 'auto_check_for_demand', pre=PRE + [(r'tree_node::is_peer_stolen\(t\)', 'STUB_is_peer_stolen()', 0)])
+    t = rw.sub(t, r'Task\* t', 'int t_unused', 1, 1, name='bind-template(Task)')
+    out.append(t)
     dg = CClass(PT, r'struct dynamic_grainsize_mode : Mode \{', 'part', rw=rw)
     dg.members = am.members
     out.append(dg.convert(dg.method(r'void align_depth\(depth_t base\)'), 'dyn_align_depth', pre=PRE))
@@ -114,6 +306,7 @@ def extract(ctx):
     txt = am.struct_decl() + '\n'.join(out)
     txt = rw.sub(txt, r'\b(adaptive_mode|proportional_mode)\* src', 'struct part* src', 2, 2, name='bind-template(Mode hierarchy -> struct part)')
     common.write(ctx, 'partitioner.inc', txt)
+    common.write(ctx, 'partitioner_fns.inc', txt[len(am.struct_decl()):])
     if not re.search(r'typedef unsigned char depth_t;', load(PT)):
         raise ExtractionBreak('partitioner.h: depth_t is no longer unsigned char')
     for c in (am, pm, ap, dg, la):
@@ -159,40 +352,37 @@ def extract(ctx):
     s = sp.method(r'void execute\(StartType &start, Range &range, execution_data& ed\)')
     t = sp.convert(s, 'simple_execute', pre=[
         (r'split_type split_obj = split\(\);', 'RG_NOP();', 1),
-        (r'range\.is_divisible\(\)', 'blocked_range_is_divisible(range)', 1),
-        (r'start\.offer_work\( split_obj, ed \)', 'start_offer_work_split(start, range)', 1),
-        (r'start\.run_body\( range \)', 'start_run_body(start, range)', 1)])
+        (r'range\.is_divisible\(\)', 'blocked_range_is_divisible(range)', 0),
+        (r'start\.offer_work\( split_obj, ed \)', 'start_offer_work_split(start, range)', 0),
+        (r'start\.run_body\( range \)', 'start_run_body(start, range)', 0)])
     t = rw.sub(t, r'StartType\* start, Range\* range, execution_data\* ed', 'struct start_for* start, struct blocked_range* range', 1, 1, name='bind-template(StartType, Range)')
     t = tag_loops(t, 'simple_execute', rw, expect=1)
     out = [t]
     pb = CClass(PT, r'struct partition_type_base \{', 'part', rw=rw)
     s = pb.method(r'void execute\(StartType &start, Range &range, execution_data& ed\)')
     t = pb.convert(s, 'base_execute', pre=[
-        (r'range\.is_divisible\(\)', 'blocked_range_is_divisible(range)', 2),
-        (r'self\(\)\.is_divisible\(\)', 'PART_IS_DIVISIBLE(self)', 2),
+        (r'range\.is_divisible\(\)', 'blocked_range_is_divisible(range)', 0),
+        (r'self\(\)\.is_divisible\(\)', 'PART_IS_DIVISIBLE(self)', 0),
         (r'typename Partition::split_type split_obj = self\(\)\.template get_split<Range>\(\);', 'PART_SPLIT_T split_obj = PART_GET_SPLIT(self);', 1),
-        (r'start\.offer_work\( split_obj, ed \)', 'PART_OFFER_WORK(start, range, self, &split_obj)', 1),
-        (r'self\(\)\.work_balance\(start, range, ed\)', 'PART_WORK_BALANCE(self, start, range)', 1)])
+        (r'start\.offer_work\( split_obj, ed \)', 'PART_OFFER_WORK(start, range, self, &split_obj)', 0),
+        (r'self\(\)\.work_balance\(start, range, ed\)', 'PART_WORK_BALANCE(self, start, range)', 0)])
     t = rw.sub(t, r'StartType\* start, Range\* range, execution_data\* ed', 'struct start_for* start, struct blocked_range* range', 1, 1, name='bind-template(StartType, Range)')
     t = tag_loops(t, 'base_execute', rw, expect=1)
     out.append(t)
     dg2 = CClass(PT, r'struct dynamic_grainsize_mode : Mode \{', 'part', rw=rw)
     s = dg2.method(r'void work_balance\(StartType &start, Range &range, execution_data& ed\)')
+    # statement-level rules are generic and have no minimum: a change that drops or swaps a statement must fail an obligation, not break the extraction
     t = dg2.convert(s, 'dyn_work_balance', pre=[
-        (r'range\.is_divisible\(\)', 'blocked_range_is_divisible(range)', 1),
-        (r'self\(\)\.max_depth\(\)', 'self->my_max_depth', 3),
-        (r'start\.run_body\( range \)', 'start_run_body(start, range)', 1),
+        (r'range\.is_divisible\(\)', 'blocked_range_is_divisible(range)', 0),
+        (r'self\(\)\.max_depth\(\)', 'self->my_max_depth', 0),
+        (r'start\.run_body\(\s*', 'start_run_body(start, ', 0),
         (r'range_vector<Range, range_pool_size> range_pool\(range\);', 'struct range_vector range_pool; range_vector_ctor(&range_pool, range);', 1),
-        (r'range_pool\.split_to_fill\(', 'range_vector_split_to_fill(&range_pool, ', 1),
-        (r'self\(\)\.check_for_demand\( start \)', 'PART_CHECK_FOR_DEMAND(self)', 1),
-        (r'range_pool\.size\(\)', 'range_vector_size(&range_pool)', 1),
-        (r'start\.offer_work\( range_pool\.front\(\), range_pool\.front_depth\(\), ed \)', 'start_offer_work_range(start, range_vector_front(&range_pool), range_vector_front_depth(&range_pool))', 1),
-        (r'range_pool\.pop_front\(\)', 'range_vector_pop_front(&range_pool)', 1),
-        (r'range_pool\.is_divisible\(', 'range_vector_is_divisible(&range_pool, ', 1),
-        (r'start\.run_body\( range_pool\.back\(\) \)', 'start_run_body(start, range_vector_back(&range_pool))', 1),
-        (r'range_pool\.pop_back\(\)', 'range_vector_pop_back(&range_pool)', 1),
-        (r'!range_pool\.empty\(\) && !ed\.context->is_group_execution_cancelled\(\)', '!range_vector_empty(&range_pool) && !STUB_is_cancelled()', 1)])
-    t = rw.sub(t, r'StartType\* start, Range\* range, execution_data\* ed', 'struct start_for* start, struct blocked_range* range', 1, 1, name='bind-template(StartType, Range)')
+        (r'self\(\)\.check_for_demand\(\s*start\s*\)', 'PART_CHECK_FOR_DEMAND(self)', 0),
+        (r'start\.offer_work\(\s*', 'start_offer_work_range(start, ', 0),
+        (r'range_pool\.(\w+)\(\s*\)', r'range_vector_\1(&range_pool)', 0),
+        (r'range_pool\.(\w+)\(\s*', r'range_vector_\1(&range_pool, ', 0),
+        (r'ed\.context->is_group_execution_cancelled\(\)', 'STUB_is_cancelled()', 0)])
+    t = rw.sub(t, r'StartType\* start, Range\* range, execution_data\* ed', 'struct start_for* start, struct blocked_range* range, void* ed', 1, 1, name='bind-template(StartType, Range)')
     t = tag_loops(t, 'work_balance', rw, expect=1)
     out.append(t)
     common.write(ctx, 'execute.inc', '\n'.join(out))
@@ -232,7 +422,782 @@ def extract(ctx):
     common.write(ctx, 'pfor.inc', '\n'.join(out2 + out))
     sliced += bw.sliced
     fired['parallel_for_impl'] = dict(rw.fired, **bw.rw.fired)
+    extract_pfe(ctx, sliced, fired)
+    extract_invoke(ctx, sliced, fired)
+    extract_partition_ctors(ctx, sliced, fired)
+    extract_nd(ctx, sliced, fired)
+    extract_start_for(ctx, sliced, fired)
     return sliced, fired
+
+
+# ---------------------------------------------------------------------------------------------------------------------
+# parallel_for_each.h
+# ---------------------------------------------------------------------------------------------------------------------
+def _sig(rw, sl, csig, what):
+    """replace the C++ signature of a sliced function by the hand-written C signature (plumbing)"""
+    rw.fired['sig: ' + what] = rw.fired.get('sig: ' + what, 0) + 1
+    return csig + ' ' + body_of(sl.text)
+
+
+def pfe_stmt_rules(rw, t):
+    """statement-level rewrites shared by the parallel_for_each task classes; every rule keeps the statement (callee -> stub macro), none has a minimum"""
+    t = task_calls(rw, t)
+    t = rw.sub(t, r'\busing \w+ = [^;]*;', 'RG_NOP();', 0, name='local type alias -> RG_NOP')
+    t = rw.sub(t, r'\bblock_handling_type::max_block_size\b', 'max_block_size', 0, name='ns-strip (class constant)')
+    t = rw.sub(t, r'(?<![\w.>:])spawn\(', 'SPAWN(', 0, name='callee stub (r1::spawn)')
+    t = rw.sub(t, r'(?<![\w.>:])execute_and_wait\(', 'EXECUTE_AND_WAIT(', 0, name='callee stub (r1::execute_and_wait)')
+    t = rw.sub(t, r'((?:self->)?\w+)\.delete_object\(self, ed\)', r'DELETE_OBJECT(\1, self, ed)', 0, name='callee stub (small_object_allocator::delete_object: destructor, then free)')
+    t = rw.sub(t, r'parallel_for_each_operator_selector<Body>::call\(', 'SELECTOR_CALL(', 0, name='static member call -> SELECTOR_CALL (sliced separately)')
+    t = rw.sub(t, r'\bstd::move\((\w+)\)', r'ITEM_MOVE(\1)', 0, name='std::move(item) -> ITEM_MOVE')
+    t = rw.sub(t, r'\bstd::forward<\w+>\((\w+)\)', r'ITEM_FWD(\1)', 0, name='std::forward<T>(item) -> ITEM_FWD')
+    return t
+
+
+def aspace(rw, t, names):
+    """aligned_space<T,N> members: X.begin() / X.end() -> ASPACE_BEGIN(X) / ASPACE_END(X)"""
+    pat = r'((?:\w+->)?(?:%s))\.(begin|end)\(\)' % '|'.join(names)
+    return rw.sub(t, pat, lambda m: 'ASPACE_%s(%s)' % (m.group(2).upper(), m.group(1)), 0, name='aligned_space::begin/end -> ASPACE_BEGIN/ASPACE_END')
+
+
+def extract_pfe(ctx, sliced, fired):
+    rw = Rewriter('parallel_for_each')
+    if not re.search(r'T\* end\(\) const \{ return begin\(\) \+ N; \}', load('include/oneapi/tbb/detail/_aligned_space.h')):
+        raise ExtractionBreak('_aligned_space.h: end() is no longer begin() + N')
+
+    def fin(t, members, refm=()):
+        t = pfe_stmt_rules(rw, t)
+        t = rw.fields(t, members, 0) if members else t
+        t = ref_members(rw, t, refm) if refm else t
+        t = wait_ops(rw, t)
+        t = rw.asserts(t, 0)
+        t = rw.std(t)
+        return t
+
+    def note(sl, what):
+        sliced.append('%s:%d %s' % (sl.rel, sl.line, what))
+
+    # ---- parallel_for_each_operator_selector::call (without / with feeder) ----------------------------------------------
+    sel = []
+    SEL = r'struct parallel_for_each_operator_selector \{'
+    for nth, cfn, inv in ((0, 'selector_call_plain', 'BODY_INVOKE1'), (1, 'selector_call_feeder', 'BODY_INVOKE2')):
+        s = slice_block(PFE, r'static auto call\(const Body& body, ItemArg&& item, FeederArg\*(?: feeder)?\)', within=SEL, nth=nth)
+        note(s, 'parallel_for_each_operator_selector::call #%d' % nth)
+        t = _sig(rw, s, 'static void %s(const Body* body, ITEM_ARG item, struct feeder_impl* feeder)' % cfn, cfn)
+        t = cxx2c.cpp_resolve(t, dict(common.TARGET_MACROS), cfn)
+        t = rw.sub(t, r'tbb::detail::invoke\(body, std::forward<ItemArg>\(item\)(, \*feeder)?\);', lambda m: '%s((*body), item%s);' % (inv, m.group(1) or ''), 0, name='user body invocation -> BODY_INVOKE1/2')
+        t = rw.asserts(t, 0)
+        sel.append(rw.std(t))
+    # ---- for_each_iteration_task ----------------------------------------------------------------------------------------
+    IT = r'struct for_each_iteration_task: public task \{'
+    IT_M = ['item_ptr', 'my_body', 'my_feeder_ptr', 'parent_wait_context']
+    IT_R = ['my_body', 'parent_wait_context']
+    icls = slice_block(PFE, IT)
+    order = member_order(icls.text, IT_M, 'for_each_iteration_task')
+    it = []
+    s = slice_ctor(PFE, r'for_each_iteration_task\(Iterator input_item_ptr, const Body& body, feeder_impl<Body, Item>\* feeder_ptr, wait_context& wait_context\)', IT)
+    note(s, 'for_each_iteration_task constructor')
+    t = ctor_c(rw, s, 'iteration_task_ctor(struct iteration_task* self, TASK_ITER input_item_ptr, const Body* body, struct feeder_impl* feeder_ptr, wait_context* wait_context_)', order, cname='for_each_iteration_task', tag='it_')
+    t = rw.sub(t, r'INIT_it_parent_wait_context_1\(self, wait_context\)', 'INIT_it_parent_wait_context_1(self, (*wait_context_))', 0, name='ref-param named like its type: wait_context -> (*wait_context_)')
+    t = refs(rw, t, ['body'])
+    it.append(t)
+    s = slice_block(PFE, r'void finalize\(\)', within=IT)
+    note(s, 'for_each_iteration_task::finalize')
+    it.append(fin(_sig(rw, s, 'void iteration_task_finalize(struct iteration_task* self)', 'iteration_task_finalize'), IT_M, IT_R))
+    for nm in ('execute', 'cancel'):
+        s = slice_block(PFE, r'task\* %s\(execution_data&\) override' % nm, within=IT)
+        note(s, 'for_each_iteration_task::' + nm)
+        t = _sig(rw, s, 'task* iteration_task_%s(struct iteration_task* self, execution_data* ed_unused)' % nm, 'iteration_task_' + nm)
+        t = rw.sub(t, r'(?<![\w.>])finalize\(\);', 'iteration_task_finalize(self);', 0, name='method')
+        t = rw.sub(t, r'\*item_ptr\b', 'TASK_ITER_DEREF(item_ptr)', 0, name='*iterator -> TASK_ITER_DEREF')
+        it.append(fin(t, IT_M, IT_R))
+    # ---- block handling tasks (input / forward) ---------------------------------------------------------------------------
+    blocks = {}
+    for kind, CL, ctor_sig, csig, M in (
+            ('input', r'struct input_block_handling_task : public task \{',
+             r'input_block_handling_task\(wait_context_vertex& root_wait_context, task_group_context& e_context,\s*const Body& body, feeder_impl<Body, Item>\* feeder_ptr, small_object_allocator& alloc\)',
+             'block_task_ctor(struct block_task* self, wait_context_vertex* root_wait_context, task_group_context* e_context, const Body* body, struct feeder_impl* feeder_ptr, small_object_allocator* alloc)',
+             ['block_iteration_space', 'task_pool', 'my_size', 'my_wait_context', 'my_root_wait_context', 'my_execution_context', 'my_allocator']),
+            ('forward', r'struct forward_block_handling_task : public task \{',
+             r'forward_block_handling_task\(Iterator first, std::size_t size,\s*wait_context_vertex& w_context, task_group_context& e_context,\s*const Body& body, feeder_impl<Body, Item>\* feeder_ptr,\s*small_object_allocator& alloc\)',
+             'block_task_ctor(struct block_task* self, Iterator first, size_t size, wait_context_vertex* w_context, task_group_context* e_context, const Body* body, struct feeder_impl* feeder_ptr, small_object_allocator* alloc)',
+             ['task_pool', 'my_size', 'my_wait_context', 'my_root_wait_context', 'my_execution_context', 'my_allocator'])):
+        R = ['my_root_wait_context', 'my_execution_context']
+        AS = [m for m in M if m in ('block_iteration_space', 'task_pool')]
+        cls = slice_block(PFE, CL)
+        mb = re.search(r'static constexpr size_t max_block_size = (\d+);', cls.text)
+        if not mb:
+            raise ExtractionBreak('%s block task: max_block_size constant not found' % kind)
+        common.write(ctx, 'pfe_block_%s_const.inc' % kind, 'enum { max_block_size = %s };\n' % mb.group(1))
+        out = []
+        order = member_order(cls.text, M, kind + '_block_handling_task')
+        if order.index('my_size') > order.index('my_wait_context') or [m for m in order if m in AS] != order[:len(AS)]:
+            raise ExtractionBreak('%s block task: member order changed: %s' % (kind, order))
+        s = slice_ctor(PFE, ctor_sig, CL)
+        note(s, kind + '_block_handling_task constructor')
+        t = ctor_c(rw, s, csig, order, cname=kind + '_block_handling_task', tag='blk_')
+        t = rw.sub(t, r'\bauto item_it =', 'Item* item_it =', 0, name='auto')
+        t = rw.sub(t, r'\bauto\* (it|task_it) =', r'struct iteration_task* \1 =', 0, name='auto')
+        t = rw.sub(t, r'new \((\w+(?:\+\+)?)\) iteration_task\(', r'NEW_AT_iteration_task(\1, ', 0, name='placement new of an iteration task -> NEW_AT_iteration_task(place, ctor args): the sliced constructor')
+        t = rw.sub(t, r'\biteration_task_iterator_type\(', r'ITER_FROM_ITEMPTR(', 0, name='iterator conversion (Item* -> const Item* / move_iterator<Item*>)')
+        t = refs(rw, t, ['root_wait_context', 'w_context', 'e_context', 'body', 'alloc'])
+        t = rw.sub(t, r'(INIT_\w+\(self, )|(?<![\w.>])(%s)\b(?!\s*\()' % '|'.join(M), lambda m: m.group(1) or 'self->' + m.group(2), 0, name='field')
+        t = aspace(rw, t, AS)
+        out.append(rw.std(t))
+        s = slice_block(PFE, r'void finalize\(const execution_data& ed\)', within=CL)
+        note(s, kind + '_block_handling_task::finalize')
+        out.append(fin(_sig(rw, s, 'void block_task_finalize(struct block_task* self, const execution_data* ed)', 'block_task_finalize'), M, R))
+        s = slice_block(PFE, r'~%s_block_handling_task\(\)' % kind, within=CL)
+        note(s, kind + '_block_handling_task destructor')
+        t = _sig(rw, s, 'void block_task_dtor(struct block_task* self)', 'block_task_dtor')
+        t = fin(t, M, R)
+        t = aspace(rw, t, AS)
+        t = rw.sub(t, r'\((ASPACE_BEGIN\(self->\w+\) \+ \w+)\)->~(\w+)\(\)', r'DTOR_\2(\1)', 0, name='explicit destructor call -> DTOR_<type>(place)')
+        t = tag_loops(t, 'block_dtor', rw, expect=1)
+        out.append(t)
+        for nm in ('execute', 'cancel'):
+            s = slice_block(PFE, r'task\* %s\(execution_data& ed\) override' % nm, within=CL)
+            note(s, '%s_block_handling_task::%s' % (kind, nm))
+            t = _sig(rw, s, 'task* block_task_%s(struct block_task* self, execution_data* ed)' % nm, 'block_task_' + nm)
+            t = rw.sub(t, r'(?<![\w.>])finalize\(ed\);', 'block_task_finalize(self, ed);', 0, name='method')
+            t = fin(t, M, R)
+            t = aspace(rw, t, AS)
+            if nm == 'execute':
+                t = tag_loops(t, 'block_execute', rw, expect=1)
+            out.append(t)
+        blocks[kind] = out
+    # ---- feeder_item_task / feeder_impl ------------------------------------------------------------------------------------
+    FT = r'struct feeder_item_task: public task \{'
+    FT_M = ['item', 'my_feeder', 'my_allocator', 'm_wait_tree_vertex']
+    fcls = slice_block(PFE, FT)
+    order = member_order(fcls.text, FT_M, 'feeder_item_task')
+    fd = []
+    s = slice_ctor(PFE, r'feeder_item_task\(ItemType&& input_item, feeder_type& feeder, small_object_allocator& alloc, wait_tree_vertex_interface& wait_vertex\) :', FT)
+    note(s, 'feeder_item_task constructor')
+    t = ctor_c(rw, s, 'feeder_item_task_ctor(struct feeder_item_task* self, ITEM_ARG input_item, struct feeder_impl* feeder, small_object_allocator* alloc, wait_tree_vertex_interface* wait_vertex)', order, cname='feeder_item_task', tag='ft_')
+    t = rw.sub(t, r'\br1::get_thread_reference_vertex\(', 'STUB_get_thread_reference_vertex(', 0, name='callee stub (r1::get_thread_reference_vertex)')
+    t = refs(rw, t, ['feeder', 'alloc', 'wait_vertex'])
+    t = rw.sub(t, r'(?<![\w.>])m_wait_tree_vertex\b', 'self->m_wait_tree_vertex', 0, name='field')
+    t = pfe_stmt_rules(rw, t)
+    t = wait_ops(rw, t)
+    fd.append(rw.std(t))
+    s = slice_block(PFE, r'void finalize\(const execution_data& ed\)', within=FT)
+    note(s, 'feeder_item_task::finalize')
+    fd.append(fin(_sig(rw, s, 'void feeder_item_task_finalize(struct feeder_item_task* self, const execution_data* ed)', 'feeder_item_task_finalize'), FT_M, ['my_feeder']))
+    for nth, cfn in ((0, 'feeder_item_task_call_first'), (1, 'feeder_item_task_call_second')):
+        s = slice_block(PFE, r'static (?:auto|void) call\(const BodyType& call_body, ItemType& call_item, FeederType& call_feeder, (?:first|second)_priority\)', within=FT, nth=nth)
+        note(s, 'feeder_item_task::call #%d' % nth)
+        t = _sig(rw, s, 'static void %s(const Body* call_body, Item* call_item, struct feeder_impl* call_feeder)' % cfn, cfn)
+        fd.append(refs(rw, fin(t, [], ()), ['call_body', 'call_item', 'call_feeder']))
+    for nm in ('execute', 'cancel'):
+        s = slice_block(PFE, r'task\* %s\(execution_data& ed\) override' % nm, within=FT)
+        note(s, 'feeder_item_task::' + nm)
+        t = _sig(rw, s, 'task* feeder_item_task_%s(struct feeder_item_task* self, execution_data* ed)' % nm, 'feeder_item_task_' + nm)
+        t = rw.sub(t, r'(?<![\w.>])finalize\(ed\);', 'feeder_item_task_finalize(self, ed);', 0, name='method')
+        t = rw.sub(t, r'(?<![\w.>:])call\(([^;]*), first_priority\{\}\);', r'FEEDER_TASK_CALL(\1);', 0, name='overload set call(..., first_priority{}) -> FEEDER_TASK_CALL (either sliced overload)')
+        fd.append(fin(t, FT_M, ['my_feeder']))
+    FI = r'class feeder_impl : public feeder<Item> \{'
+    FI_M = ['my_body', 'my_wait_context', 'my_execution_context']
+    ficls = slice_block(PFE, FI)
+    order = member_order(ficls.text, FI_M, 'feeder_impl')
+    s = slice_ctor(PFE, r'feeder_impl\(const Body& body, wait_context_vertex& w_context, task_group_context &context\)', FI)
+    note(s, 'feeder_impl constructor')
+    t = ctor_c(rw, s, 'feeder_impl_ctor(struct feeder_impl* self, const Body* body, wait_context_vertex* w_context, task_group_context* context)', order, cname='feeder_impl', tag='fi_')
+    common.write(ctx, 'pfe_feeder_impl_ctor.inc', refs(rw, t, ['body', 'w_context', 'context']) + '\n')
+    for sig, cfn, csig in ((r'void internal_add_copy_impl\(std::true_type, const Item& item\)', 'feeder_impl_internal_add_copy_impl_true', 'const Item* item'),
+                           (r'void internal_add_move\(Item&& item\) override', 'feeder_impl_internal_add_move', 'Item* item')):
+        s = slice_block(PFE, sig, within=FI)
+        note(s, 'feeder_impl::' + cfn[len('feeder_impl_'):])
+        t = _sig(rw, s, 'void %s(struct feeder_impl* self, %s)' % (cfn, csig), cfn)
+        t = rw.sub(t, r'\bauto task = alloc\.new_object<feeder_task>\(', 'struct feeder_item_task* task = NEW_feeder_item_task(alloc, ', 0, name='alloc.new_object<T>(args) -> NEW_T(alloc, args): allocate, then the sliced constructor')
+        t = rw.sub(t, r'\bstd::move\(item\)', 'ITEM_MOVE(*item)', 0, name='std::move(item) -> ITEM_MOVE')
+        t = rw.sub(t, r'(NEW_feeder_item_task\(alloc, )item\b', r'\1ITEM_COPY(*item)', 0, name='copy of the item argument -> ITEM_COPY')
+        t = fin(t, FI_M, FI_M)
+        fd.append(t)
+    s = slice_block(PFE, r'void internal_add_copy\(const Item& item\) override', within=FI)
+    note(s, 'feeder_impl::internal_add_copy')
+    t = _sig(rw, s, 'void feeder_impl_internal_add_copy(struct feeder_impl* self, const Item* item)', 'feeder_impl_internal_add_copy')
+    t = rw.sub(t, r'internal_add_copy_impl\(typename std::is_copy_constructible<Item>::type\(\), item\);', 'feeder_impl_internal_add_copy_impl_true(self, item);', 0, name='tag dispatch bound: Item is copy constructible')
+    fd.append(t)
+    # ---- parallel_for_body_wrapper (random access iterators) --------------------------------------------------------------
+    BW = r'class parallel_for_body_wrapper \{'
+    BW_M = ['my_first', 'my_body', 'my_feeder_ptr']
+    wcls = slice_block(PFE, BW)
+    order = member_order(wcls.text, BW_M, 'pfe parallel_for_body_wrapper')
+    wr = []
+    s = slice_ctor(PFE, r'parallel_for_body_wrapper\(Iterator first, const Body& body, feeder_impl<Body, Item>\* feeder_ptr\)', BW)
+    note(s, 'parallel_for_each parallel_for_body_wrapper constructor')
+    t = ctor_c(rw, s, 'pfe_wrapper_ctor(struct pfe_wrapper* self, Iterator first, const Body* body, struct feeder_impl* feeder_ptr)', order, cname='pfe_wrapper', tag='pw_')
+    wr.append(refs(rw, t, ['body']))
+    s = slice_block(PFE, r'void operator\(\)\(tbb::blocked_range<std::size_t> range\) const', within=BW)
+    note(s, 'parallel_for_each parallel_for_body_wrapper::operator()')
+    t = _sig(rw, s, 'void pfe_wrapper_call(const struct pfe_wrapper* self, struct blocked_range range)', 'pfe_wrapper_call')
+    t = cxx2c.cpp_resolve(t, {'__INTEL_COMPILER': 0}, 'pfe_wrapper_call')
+    t = rw.sub(t, r'\brange\.(begin|end)\(\)', r'blocked_range_\1(&range)', 0, name='method')
+    t = rw.sub(t, r'\*\((my_first\b[^()]*)\)', r'SEQ_DEREF(\1)', 0, name='*iterator -> SEQ_DEREF')
+    t = fin(t, BW_M, ['my_body'])
+    t = tag_loops(t, 'pfe_wrapper', rw, expect=1)
+    wr.append(t)
+    # ---- feeder_holder, for_each_root_task_base, the three root tasks, run_parallel_for_each ---------------------------
+    rt = []
+    FH1 = r'struct feeder_holder \{'
+    FH2 = r'class feeder_holder<Iterator, Body, Item, feeder_is_required<Body, Iterator, Item>> \{'
+    s = slice_block(PFE, r'feeder_impl<Body, Item>\* feeder_ptr\(\)', within=FH1)
+    note(s, 'feeder_holder (no feeder)::feeder_ptr')
+    rt.append('#ifndef FEEDER_REQUIRED\n' + rw.std(_sig(rw, s, 'static struct feeder_impl* feeder_holder_feeder_ptr(struct feeder_holder* self)', 'feeder_ptr (none)')))
+    s = slice_ctor(PFE, r'feeder_holder\( wait_context_vertex&, task_group_context&, const Body& \)', FH1)
+    note(s, 'feeder_holder (no feeder) constructor')
+    rt.append(ctor_c(rw, s, 'feeder_holder_ctor(struct feeder_holder* self, wait_context_vertex* w_context, task_group_context* context, const Body* body)', [], cname='feeder_holder', tag='fh_') + '\n#else')
+    s = slice_block(PFE, r'feeder_impl<Body, Item>\* feeder_ptr\(\)', within=FH2)
+    note(s, 'feeder_holder (feeder required)::feeder_ptr')
+    t = rw.std(_sig(rw, s, 'static struct feeder_impl* feeder_holder_feeder_ptr(struct feeder_holder* self)', 'feeder_ptr (required)'))
+    rt.append(rw.fields(t, ['my_feeder'], 0))
+    s = slice_ctor(PFE, r'feeder_holder\( wait_context_vertex& w_context, task_group_context& context, const Body& body \)', FH2)
+    note(s, 'feeder_holder (feeder required) constructor')
+    t = ctor_c(rw, s, 'feeder_holder_ctor(struct feeder_holder* self, wait_context_vertex* w_context, task_group_context* context, const Body* body)', ['my_feeder'], cname='feeder_holder', tag='fh_')
+    rt.append(refs(rw, t, ['w_context', 'context', 'body']) + '\n#endif')
+    RB = r'class for_each_root_task_base : public task \{'
+    RB_M = ['my_first', 'my_last', 'my_wait_context', 'my_execution_context', 'my_body', 'my_feeder_holder']
+    RB_R = ['my_wait_context', 'my_execution_context', 'my_body']
+    rcls = slice_block(PFE, RB)
+    order = member_order(rcls.text, RB_M, 'for_each_root_task_base')
+    s = slice_ctor(PFE, r'for_each_root_task_base\(Iterator first, Iterator last, const Body& body, wait_context_vertex& w_context, task_group_context& e_context\)', RB)
+    note(s, 'for_each_root_task_base constructor')
+    t = ctor_c(rw, s, 'root_task_ctor(struct root_task* self, Iterator first, Iterator last, const Body* body, wait_context_vertex* w_context, task_group_context* e_context)', order, cname='for_each_root_task_base', tag='root_')
+    t = refs(rw, t, ['body', 'w_context', 'e_context'])
+    t = rw.sub(t, r'(INIT_\w+\(self, )|(?<![\w.>])(%s)\b(?!\s*\()' % '|'.join(RB_M), lambda m: m.group(1) or 'self->' + m.group(2), 0, name='field')
+    t = ref_members(rw, t, RB_R)
+    t = wait_ops(rw, t)
+    rt.append(t)
+    s = slice_block(PFE, r'task\* cancel\(execution_data&\) override', within=RB)
+    note(s, 'for_each_root_task_base::cancel')
+    rt.append(fin(_sig(rw, s, 'task* root_task_cancel(struct root_task* self, execution_data* ed_unused)', 'root_task_cancel'), RB_M, RB_R))
+    roots = {}
+    for kind, CL in (('input', r'class for_each_root_task : public for_each_root_task_base<Iterator, Body, Item>\s*\{'),
+                     ('forward', r'class for_each_root_task<Iterator, Body, Item, std::forward_iterator_tag>\s*: public for_each_root_task_base<Iterator, Body, Item>\s*\{'),
+                     ('random', r'class for_each_root_task<Iterator, Body, Item, std::random_access_iterator_tag>\s*: public for_each_root_task_base<Iterator, Body, Item>\s*\{')):
+        s = slice_block(PFE, r'task\* execute\(execution_data&(?: ed)?\) override', within=CL)
+        note(s, 'for_each_root_task<%s>::execute' % kind)
+        t = _sig(rw, s, 'task* root_task_execute(struct root_task* self, execution_data* ed)', 'root_task_execute (%s)' % kind)
+        t = rw.sub(t, r'\bauto block_handling_task = alloc\.new_object<block_handling_type>\(', 'struct block_task* block_handling_task = NEW_block_task(alloc, ', 0, name='alloc.new_object<T>(args) -> NEW_T(alloc, args): allocate, then the sliced constructor')
+        t = rw.sub(t, r'\bauto\* block_iterator =', 'Item* block_iterator =', 0, name='auto')
+        t = rw.sub(t, r'new \((block_iterator\b[^()]*)\) Item\(\*this->my_first\);', r'NEW_AT_Item(\1, SEQ_DEREF(this->my_first));', 0, name='placement new of Item(*iterator) -> NEW_AT_Item(place, SEQ_DEREF(iterator))')
+        t = rw.sub(t, r'\bstd::size_t block_size\{0\};', 'size_t block_size = 0;', 0, name='brace initialiser')
+        t = rw.sub(t, r'this->my_feeder_holder\.feeder_ptr\(\)', 'feeder_holder_feeder_ptr(&this->my_feeder_holder)', 0, name='member-object method')
+        t = rw.sub(t, r'\btbb::parallel_for\(', 'STUB_parallel_for(', 0, name='callee stub (tbb::parallel_for: C05 parallel_for jobs)')
+        t = rw.sub(t, r'\btbb::blocked_range<std::size_t>\(', 'MK_RANGE(', 0, name='temporary blocked_range<size_t>(b, e) -> MK_RANGE: the sliced constructor, default grainsize')
+        t = rw.sub(t, r'\bstd::distance\(', 'ITER_DISTANCE(', 0, name='std::distance -> ITER_DISTANCE')
+        t = rw.sub(t, r'\bparallel_for_body_wrapper<Iterator, Body, Item>\(', 'MK_WRAPPER(', 0, name='temporary wrapper object -> MK_WRAPPER: the sliced constructor')
+        t = fin(t, RB_M, RB_R)
+        t = aspace(rw, t, ['block_iteration_space'])
+        if kind != 'random':
+            t = tag_loops(t, 'root_execute', rw, expect=1)
+        roots[kind] = t
+    s = slice_block(PFE, r'void run_parallel_for_each\( Iterator first, Iterator last, const Body& body, task_group_context& context\)')
+    note(s, 'run_parallel_for_each')
+    t = _sig(rw, s, 'void run_parallel_for_each(Iterator first, Iterator last, const Body* body, task_group_context* context)', 'run_parallel_for_each')
+    t = rw.sub(t, r'\bwait_context_vertex w_context\(0\);', 'wait_context_vertex w_context; WAIT_CTOR(w_context, 0);', 0, name='local object + constructor')
+    t = rw.sub(t, r'\bfor_each_root_task<Iterator, Body, ItemType> root_task\(first, last, body, w_context, context\);', 'struct root_task root_task; root_task_ctor(&root_task, first, last, &body, &w_context, &context);', 0, name='local object + sliced constructor')
+    t = rw.sub(t, r'\bw_context\.get_context\(\)', 'WAIT_GET_CONTEXT(w_context)', 0, name='wait_context_vertex::get_context')
+    t = refs(rw, t, ['body', 'context'])
+    t = fin(t, [], ())
+    run = t
+    pre = '\n'.join(sel) + '\n'
+    common.write(ctx, 'pfe_iter.inc', pre + '\n'.join(it) + '\n')
+    for kind in ('input', 'forward'):
+        common.write(ctx, 'pfe_block_%s.inc' % kind, '\n'.join(blocks[kind]) + '\n')
+    common.write(ctx, 'pfe_feeder.inc', '\n'.join(fd) + '\n')
+    common.write(ctx, 'pfe_wrapper.inc', '\n'.join(wr) + '\n')
+    common.write(ctx, 'pfe_root.inc', '\n'.join(rt) + '\n')
+    for kind in roots:
+        common.write(ctx, 'pfe_root_%s.inc' % kind, roots[kind] + '\n')
+    common.write(ctx, 'pfe_run.inc', run + '\n')
+    fired['parallel_for_each'] = rw.fired
+
+
+# ---------------------------------------------------------------------------------------------------------------------
+# parallel_invoke.h
+# ---------------------------------------------------------------------------------------------------------------------
+def extract_invoke(ctx, sliced, fired):
+    rw = Rewriter('parallel_invoke')
+
+    def note(sl, what):
+        sliced.append('%s:%d %s' % (sl.rel, sl.line, what))
+
+    def stmts(t):
+        t = task_calls(rw, t)
+        t = rw.sub(t, r'call_itt_task_notify\(\w+, self\);', 'RG_NOP();', 0, name='ITT notification -> RG_NOP')
+        t = rw.sub(t, r'(?<![\w.>:])spawn\(', 'SPAWN(', 0, name='callee stub (r1::spawn)')
+        t = rw.sub(t, r'(?<![\w.>:])execute_and_wait\(', 'EXECUTE_AND_WAIT(', 0, name='callee stub (r1::execute_and_wait)')
+        return t
+    out = []
+    # ---- function_invoker ---------------------------------------------------------------------------------------------------
+    FI = r'struct function_invoker : public task \{'
+    FI_M = ['my_function', 'parent_wait_ctx']
+    cls = slice_block(PI, FI)
+    order = member_order(cls.text, FI_M, 'function_invoker')
+    s = slice_ctor(PI, r'function_invoker\(const Function& function, WaitObject& wait_ctx\) :', FI)
+    note(s, 'function_invoker constructor')
+    t = ctor_c(rw, s, 'function_invoker_ctor(struct function_invoker* self, const Fn* function, WAIT_OBJECT* wait_ctx)', order, cname='function_invoker', tag='inv_')
+    out.append(refs(rw, t, ['function', 'wait_ctx']))
+    for nm in ('execute', 'cancel'):
+        s = slice_block(PI, r'task\* %s\(execution_data& ed\) override' % nm, within=FI)
+        note(s, 'function_invoker::' + nm)
+        t = _sig(rw, s, 'task* function_invoker_%s(struct function_invoker* self, execution_data* ed)' % nm, 'function_invoker_' + nm)
+        t = stmts(t)
+        t = rw.sub(t, r'(?<![\w.>])my_function\(\);', 'FN_CALL(my_function);', 0, name='user functor invocation -> FN_CALL')
+        t = rw.sub(t, r'(?<![\w.>])parent_wait_ctx\.release\(ed\);', 'WAIT_OBJECT_RELEASE(parent_wait_ctx, ed);', 0, name='WaitObject::release(ed) -> WAIT_OBJECT_RELEASE (invoke_root_task / invoke_subroot_task: sliced separately)')
+        t = rw.fields(t, FI_M, 0)
+        t = ref_members(rw, t, FI_M)
+        out.append(rw.std(t))
+    txt = '\n'.join(out) + '\n'
+    for suf, wo in (('r', 'invoke_root_task'), ('s', 'invoke_subroot_task')):      # the two instantiations of the class template (WaitObject := invoke_root_task / invoke_subroot_task)
+        t = txt.replace('function_invoker', 'function_invoker_' + suf).replace('WAIT_OBJECT_RELEASE(', wo + '_release(&').replace('WAIT_OBJECT*', 'struct %s*' % wo)
+        common.write(ctx, 'invoke_invoker_%s.inc' % suf, t)
+    rw.fired['bind-template(function_invoker<Function, WaitObject>: two instantiations)'] = 2
+    # ---- invoke_root_task ----------------------------------------------------------------------------------------------------
+    out = []
+    RT = r'class invoke_root_task \{'
+    s = slice_ctor(PI, r'invoke_root_task\(wait_context& wc\) :', RT)
+    note(s, 'invoke_root_task constructor')
+    t = ctor_c(rw, s, 'invoke_root_task_ctor(struct invoke_root_task* self, wait_context* wc)', ['my_wait_context'], cname='invoke_root_task', tag='rt_')
+    out.append(refs(rw, t, ['wc']))
+    s = slice_block(PI, r'void release\(const execution_data&\)', within=RT)
+    note(s, 'invoke_root_task::release')
+    t = _sig(rw, s, 'void invoke_root_task_release(struct invoke_root_task* self, const execution_data* ed_unused)', 'invoke_root_task_release')
+    t = rw.fields(t, ['my_wait_context'], 0)
+    t = ref_members(rw, t, ['my_wait_context'])
+    out.append(wait_ops(rw, t))
+    common.write(ctx, 'invoke_root.inc', '\n'.join(out) + '\n')
+    # ---- invoke_subroot_task --------------------------------------------------------------------------------------------------
+    out = []
+    ST = r'struct invoke_subroot_task : public task \{'
+    ST_M = ['root_wait_ctx', 'ref_count', 'child_spawned', 'self_invoked_functor', 'f2_invoker', 'f3_invoker', 'my_execution_context', 'my_allocator']
+    ST_R = ['root_wait_ctx', 'self_invoked_functor', 'my_execution_context']
+    cls = slice_block(PI, ST)
+    order = member_order(cls.text, ST_M, 'invoke_subroot_task')
+    s = slice_ctor(PI, r'invoke_subroot_task\(const F1& f1, const F2& f2, const F3& f3, wait_context& wait_ctx, task_group_context& context,\s*small_object_allocator& alloc\) :', ST)
+    note(s, 'invoke_subroot_task constructor')
+    t = ctor_c(rw, s, 'invoke_subroot_task_ctor(struct invoke_subroot_task* self, const Fn* f1, const Fn* f2, const Fn* f3, wait_context* wait_ctx, task_group_context* context, small_object_allocator* alloc)',
+               order, defaults=nsdmi(cls.text, ['ref_count', 'child_spawned']), cname='invoke_subroot_task', tag='sub_')
+    t = task_calls(rw, t)
+    t = refs(rw, t, ['f1', 'f2', 'f3', 'wait_ctx', 'context', 'alloc'])
+    t = rw.sub(t, r'(?<![\w.>])root_wait_ctx\b(?=\.)', 'self->root_wait_ctx', 0, name='field')
+    t = ref_members(rw, t, ST_R)
+    out.append(wait_ops(rw, t))
+
+    def sub_fn(t):
+        t = stmts(t)
+        t = rw.sub(t, r'(?<![\w.>])(finalize|release)\(ed\);', r'invoke_subroot_task_\1(self, ed);', 0, name='method')
+        t = rw.sub(t, r'(?<![\w.>])self_invoked_functor\(\);', 'FN_CALL(self_invoked_functor);', 0, name='user functor invocation -> FN_CALL')
+        t = rw.sub(t, r'(?<![\w.>])my_allocator\.delete_object\(self, ed\);', 'DELETE_OBJECT(my_allocator, self, ed);', 0, name='callee stub (small_object_allocator::delete_object)')
+        t = rw.sub(t, r'__TBB_ASSERT\(ref_count > 0, nullptr\);', 'VERIF_ASSERT(ASSERT_READ(ref_count) > 0, "release() is called on a positive count");', 0, name='assert (a read that only exists in debug builds: no atomic site)')
+        t = rw.sub(t, r'(?<![\w.>(])ref_count > 0', 'ref_count.load() > 0', 0, name='implicit atomic load made explicit')
+        t = rw.atomics(t, ['ref_count'], 0)
+        t = rw.fields(t, ST_M, 0)
+        t = ref_members(rw, t, ST_R)
+        t = wait_ops(rw, t)
+        t = rw.asserts(t, 0)
+        return rw.std(t)
+    out.append('void invoke_subroot_task_release(struct invoke_subroot_task* self, const execution_data* ed);')
+    for nm, sig, csig in (('finalize', r'void finalize\(const execution_data& ed\)', 'void invoke_subroot_task_finalize(struct invoke_subroot_task* self, const execution_data* ed)'),
+                          ('release', r'void release\(const execution_data& ed\)', 'void invoke_subroot_task_release(struct invoke_subroot_task* self, const execution_data* ed)'),
+                          ('execute', r'task\* execute\(execution_data& ed\) override', 'task* invoke_subroot_task_execute(struct invoke_subroot_task* self, execution_data* ed)'),
+                          ('cancel', r'task\* cancel\(execution_data& ed\) override', 'task* invoke_subroot_task_cancel(struct invoke_subroot_task* self, execution_data* ed)')):
+        s = slice_block(PI, sig, within=ST)
+        note(s, 'invoke_subroot_task::' + nm)
+        t = sub_fn(_sig(rw, s, csig, 'invoke_subroot_task_' + nm))
+        out.append(rw.number_sites(t, 'sub_' + nm, by_kind=True))
+    common.write(ctx, 'invoke_subroot.inc', '\n'.join(out) + '\n')
+    # ---- invoke_recursive_separation (1, 2, 3 functions; variadic) ------------------------------------------------------------
+    out = []
+    for n in (1, 2, 3, 4):
+        if n < 4:
+            sig = r'void invoke_recursive_separation\(wait_context& root_wait_ctx, task_group_context& context, %s\)' % ', '.join('const F%d& f%d' % (i, i) for i in range(1, n + 1))
+            csig = 'void invoke_sep_%d(wait_context* root_wait_ctx, task_group_context* context, %s)' % (n, ', '.join('const Fn* f%d' % i for i in range(1, n + 1)))
+        else:
+            sig = r'void invoke_recursive_separation\(wait_context& root_wait_ctx, task_group_context& context,\s*const F1& f1, const F2& f2, const F3& f3, const Fs&\.\.\. fs\)'
+            csig = 'void invoke_sep_n(wait_context* root_wait_ctx, task_group_context* context, const Fn* f1, const Fn* f2, const Fn* f3, FN_PACK fs)'
+        s = slice_block(PI, sig)
+        note(s, 'invoke_recursive_separation (%s)' % ('%d functions' % n if n < 4 else '3 functions + rest of the pack'))
+        t = _sig(rw, s, csig, 'invoke_sep_%s' % (n if n < 4 else 'n'))
+        t = stmts(t)
+        t = rw.sub(t, r'\binvoke_root_task root\(root_wait_ctx\);', 'struct invoke_root_task root; invoke_root_task_ctor(&root, &(root_wait_ctx));', 0, name='local object + sliced constructor')
+        t = rw.sub(t, r'\bfunction_invoker<F\d, invoke_root_task> (invoker\d)\((f\d), root\);', r'struct function_invoker_r \1; function_invoker_r_ctor(&\1, &(\2), &(root));', 0, name='local object + sliced constructor')
+        t = rw.sub(t, r'\bauto sub_root = alloc\.new_object<invoke_subroot_task<F1, F2, F3>>\(', 'struct invoke_subroot_task* sub_root = NEW_subroot(alloc, ', 0, name='alloc.new_object<T>(args) -> NEW_T(alloc, args): allocate, then the sliced constructor')
+        t = rw.sub(t, r'\binvoke_recursive_separation\(root_wait_ctx, context, fs\.\.\.\);', 'INVOKE_SEP_REST(root_wait_ctx, context, fs);', 0, name='recursive call on the rest of the pack -> INVOKE_SEP_REST (contract stub: induction on the pack length)')
+        t = wait_ops(rw, t)
+        t = refs(rw, t, ['root_wait_ctx', 'context', 'f1', 'f2', 'f3'][:2 + min(n, 3)])
+        out.append(rw.std(t))
+    # ---- parallel_invoke_impl (with / without a user context) -------------------------------------------------------------------
+    s = slice_block(PI, r'void parallel_invoke_impl\(task_group_context& context, const Fs&\.\.\. fs\)')
+    note(s, 'parallel_invoke_impl(context, fs...)')
+    t = _sig(rw, s, 'void parallel_invoke_impl_ctx(task_group_context* context, FN_PACK fs)', 'parallel_invoke_impl_ctx')
+    t = rw.sub(t, r'static_assert\(sizeof\.\.\.\(Fs\) >= (\d+),', r'VERIF_STATIC_ASSERT(fs.n >= \1,', 0, name='static_assert on the pack length -> precondition check')
+    t = rw.sub(t, r'\bwait_context root_wait_ctx\{0\};', 'wait_context root_wait_ctx; WAIT_CTOR(root_wait_ctx, 0);', 0, name='local object + constructor')
+    t = rw.sub(t, r'\binvoke_recursive_separation\(root_wait_ctx, context, fs\.\.\.\);', 'INVOKE_SEP_ALL(root_wait_ctx, context, fs);', 0, name='call on the whole pack -> INVOKE_SEP_ALL')
+    out.append(rw.std(refs(rw, t, ['context'])))
+    s = slice_block(PI, r'void parallel_invoke_impl\(const F1& f1, const Fs&\.\.\. fs\)')
+    note(s, 'parallel_invoke_impl(f1, fs...)')
+    t = _sig(rw, s, 'void parallel_invoke_impl_own(const Fn* f1, FN_PACK fs)', 'parallel_invoke_impl_own')
+    t = rw.sub(t, r'static_assert\(sizeof\.\.\.\(Fs\) >= (\d+),', r'VERIF_STATIC_ASSERT(fs.n >= \1,', 0, name='static_assert on the pack length -> precondition check')
+    t = rw.sub(t, r'\btask_group_context context\(PARALLEL_INVOKE\);', 'task_group_context context; CONTEXT_CTOR(context, PARALLEL_INVOKE);', 0, name='local context object + constructor')
+    t = rw.sub(t, r'\bwait_context root_wait_ctx\{0\};', 'wait_context root_wait_ctx; WAIT_CTOR(root_wait_ctx, 0);', 0, name='local object + constructor')
+    t = rw.sub(t, r'\binvoke_recursive_separation\(root_wait_ctx, context, fs\.\.\., f1\);', 'INVOKE_SEP_ALL_PLUS(root_wait_ctx, context, fs, f1);', 0, name='call on the pack followed by f1 -> INVOKE_SEP_ALL_PLUS')
+    out.append(rw.std(refs(rw, t, ['f1'])))
+    common.write(ctx, 'invoke_sep.inc', '\n'.join(out) + '\n')
+    fired['parallel_invoke'] = rw.fired
+
+
+# ---------------------------------------------------------------------------------------------------------------------
+# partitioner.h: constructor chains of the partition types, affinity map, check_being_stolen
+# ---------------------------------------------------------------------------------------------------------------------
+def _retext(sl, text):
+    return cxx2c.Slice(sl.rel, sl.start, sl.end, text, sl.line)
+
+
+def extract_partition_ctors(ctx, sliced, fired):
+    rw = Rewriter('partition constructors')
+
+    def note(sl, what):
+        sliced.append('%s:%d %s' % (sl.rel, sl.line, what))
+
+    def base_names(t):
+        """template arguments of base-class initialisers are dropped: Base<Args>(...) -> Base(...) (the hierarchy is bound per job)"""
+        t = rw.sub(t, r'\b(adaptive_mode|proportional_mode|linear_affinity_mode)<\w+>\s*\(', r'\1(', 0, name='base-class initialiser: template arguments dropped')
+        t = rw.sub(t, r'\bdynamic_grainsize_mode<\w+<\w+> >\s*\(', 'dynamic_grainsize_mode(', 0, name='base-class initialiser: template arguments dropped')
+        return t
+
+    def tags(t):
+        """INIT_x_2(self, src, split()) -> INIT_x_s(self, src); INIT_x_2(self, src, split_obj) -> INIT_x_p(self, src, split_obj): overloads selected by the tag type"""
+        t = rw.sub(t, r'INIT_(\w+)_2\(self, (\w+), split\(\)\)', r'INIT_\1_s(self, \2)', 0, name='overload on the split tag -> _s')
+        t = rw.sub(t, r'INIT_(\w+)_2\(self, (\w+), split_obj\)', r'INIT_\1_p(self, \2, split_obj)', 0, name='overload on proportional_split -> _p')
+        return t
+
+    def common_rules(t):
+        t = rw.sub(t, r'\bself\(\)\.', 'self->', 0, name='CRTP self()')
+        t = rw.sub(t, r'\b(?:my_partition|Mode::my_partition)::factor\b', 'PART_FACTOR', 0, name='Partition::factor (bound per job)')
+        t = rw.sub(t, r'\bdo_split\(src, split\(\)\)', 'adaptive_do_split(self, &(src))', 0, name='method (sliced separately)')
+        t = rw.sub(t, r'\bdo_split\(src, split_obj\)', 'proportional_do_split(self, &(src), &(split_obj))', 0, name='method (sliced separately)')
+        return t
+    out = []
+    M_ALL = ['my_divisor', 'my_delay', 'my_max_depth', 'my_head', 'my_max_affinity', 'my_array']
+    s = slice_block(PT, r'inline std::size_t get_initial_auto_partitioner_divisor\(\)')
+    note(s, 'get_initial_auto_partitioner_divisor')
+    t = _sig(rw, s, 'static size_t get_initial_auto_partitioner_divisor(void)', 'get_initial_auto_partitioner_divisor')
+    t = rw.sub(t, r'(?<![\w.>:])max_concurrency\(\)', 'STUB_max_concurrency()', 0, name='callee stub (this_task_arena::max_concurrency)')
+    out.append(rw.std(rw.casts(t)))
+    s = slice_block(PT, r'static std::size_t get_initial_partition_head\(\)')
+    note(s, 'get_initial_partition_head')
+    t = _sig(rw, s, 'static size_t get_initial_partition_head(void)', 'get_initial_partition_head')
+    t = rw.sub(t, r'\btbb::this_task_arena::current_thread_index\(\)', 'STUB_current_thread_index()', 0, name='callee stub (this_task_arena::current_thread_index)')
+    t = rw.sub(t, r'\btbb::task_arena::not_initialized\b', 'TASK_ARENA_not_initialized', 0, name='class constant')
+    out.append(rw.std(rw.fcasts(t, ['size_t'])))
+    ni = re.search(r'static const int not_initialized = (-?\d+);', load('include/oneapi/tbb/task_arena.h'))
+    if not ni:
+        raise ExtractionBreak('task_arena.h: not_initialized constant not found')
+    consts = ['enum { TASK_ARENA_not_initialized = %s };' % ni.group(1)]
+    for nm in ('__TBB_INITIAL_CHUNKS', '__TBB_RANGE_POOL_CAPACITY', '__TBB_INIT_DEPTH'):
+        m = re.search(r'#define %s (\d+)' % nm, load(PT))
+        if not m:
+            raise ExtractionBreak('partitioner.h: %s not found' % nm)
+        consts.append('#define %s %s' % (nm, m.group(1)))
+    AP = r'class affinity_partition_type : public dynamic_grainsize_mode<linear_affinity_mode<affinity_partition_type> > \{'
+    acls = slice_block(PT, AP)
+    m1 = re.search(r'static const unsigned factor_power = (\d+);', acls.text)
+    m2 = re.search(r'static const unsigned factor = (1 << factor_power);', acls.text)
+    if not m1 or not m2:
+        raise ExtractionBreak('affinity_partition_type: factor / factor_power constants not found')
+    consts.append('enum { factor_power = %s }; enum { AFFINITY_FACTOR = %s };' % (m1.group(1), m2.group(1)))
+    ns = re.search(r'constexpr slot_id no_slot = slot_id\(~0\);', load('include/oneapi/tbb/detail/_task.h'))
+    if not ns or not re.search(r'using slot_id = unsigned short;', load('include/oneapi/tbb/detail/_task.h')):
+        raise ExtractionBreak('_task.h: slot_id / no_slot changed')
+    common.write(ctx, 'part_consts.inc', '\n'.join(consts) + '\n')
+    # ---- constructor chains ------------------------------------------------------------------------------------------------------
+    AM = r'struct adaptive_mode : partition_type_base<Partition> \{'
+    PM = r'struct proportional_mode : adaptive_mode<Partition> \{'
+    LA = r'struct linear_affinity_mode : proportional_mode<Partition> \{'
+    DG = r'struct dynamic_grainsize_mode : Mode \{'
+    AU = r'class auto_partition_type: public dynamic_grainsize_mode<adaptive_mode<auto_partition_type> > \{'
+    ST = r'class static_partition_type : public linear_affinity_mode<static_partition_type> \{'
+    SP = 'struct part* self'
+    dgcls = slice_block(PT, DG)
+    dg_order = member_order(dgcls.text, ['my_delay', 'my_max_depth'], 'dynamic_grainsize_mode')
+    lacls = slice_block(PT, LA)
+    la_order = member_order(lacls.text, ['my_head', 'my_max_affinity'], 'linear_affinity_mode')
+    table = (
+        (AM, r'adaptive_mode\(\) :', 'adaptive_ctor_0(%s)' % SP, ['my_divisor'], (), [], 'am_'),
+        (AM, r'adaptive_mode\(adaptive_mode &src, split\) :', 'adaptive_ctor_s(%s, struct part* src)' % SP, ['my_divisor'], (), ['src'], 'am_'),
+        (AM, r'adaptive_mode\(adaptive_mode&, const proportional_split&\) :', 'adaptive_ctor_p(%s, struct part* src_unused, const struct proportional_split* split_unused)' % SP, ['my_divisor'], (), [], 'am_'),
+        (PM, r'proportional_mode\(\) :', 'proportional_ctor_0(%s)' % SP, [], ['adaptive_mode'], [], 'pm_'),
+        (PM, r'proportional_mode\(proportional_mode &src, split\) :', 'proportional_ctor_s(%s, struct part* src)' % SP, [], ['adaptive_mode'], ['src'], 'pm_'),
+        (PM, r'proportional_mode\(proportional_mode &src, const proportional_split& split_obj\)', 'proportional_ctor_p(%s, struct part* src, const struct proportional_split* split_obj)' % SP, [], ['adaptive_mode'], ['src', 'split_obj'], 'pm_'),
+        (LA, r'linear_affinity_mode\(\) :', 'linear_ctor_0(%s)' % SP, la_order, ['proportional_mode'], [], 'la_'),
+        (LA, r'linear_affinity_mode\(linear_affinity_mode &src, split\) :', 'linear_ctor_s(%s, struct part* src)' % SP, la_order, ['proportional_mode'], ['src'], 'la_'),
+        (LA, r'linear_affinity_mode\(linear_affinity_mode &src, const proportional_split& split_obj\) :', 'linear_ctor_p(%s, struct part* src, const struct proportional_split* split_obj)' % SP, la_order, ['proportional_mode'], ['src', 'split_obj'], 'la_'),
+        (DG, r'dynamic_grainsize_mode\(\): Mode\(\)', 'dyn_ctor_0(%s)' % SP, dg_order, ['Mode'], [], 'dg_'),
+        (DG, r'dynamic_grainsize_mode\(dynamic_grainsize_mode& p, split\)', 'dyn_ctor_s(%s, struct part* p)' % SP, dg_order, ['Mode'], ['p'], 'dg_'),
+        (DG, r'dynamic_grainsize_mode\(dynamic_grainsize_mode& p, const proportional_split& split_obj\)', 'dyn_ctor_p(%s, struct part* p, const struct proportional_split* split_obj)' % SP, dg_order, ['Mode'], ['p', 'split_obj'], 'dg_'),
+        (AP, r'affinity_partition_type\( affinity_partitioner_base& ap \)', 'affinity_ctor_0(%s, struct affinity_partitioner_base* ap)' % SP, ['my_array'], ['dynamic_grainsize_mode'], ['ap'], 'ap_'),
+        (AP, r'affinity_partition_type\(affinity_partition_type& p, split\)', 'affinity_ctor_s(%s, struct part* p)' % SP, ['my_array'], ['dynamic_grainsize_mode'], ['p'], 'ap_'),
+        (AP, r'affinity_partition_type\(affinity_partition_type& p, const proportional_split& split_obj\)', 'affinity_ctor_p(%s, struct part* p, const struct proportional_split* split_obj)' % SP, ['my_array'], ['dynamic_grainsize_mode'], ['p', 'split_obj'], 'ap_'),
+        (AU, r'auto_partition_type\( const auto_partitioner& \)', 'auto_ctor_0(%s)' % SP, [], ['dynamic_grainsize_mode'], [], 'au_'),
+        (AU, r'auto_partition_type\( auto_partition_type& src, split\)', 'auto_ctor_s(%s, struct part* src)' % SP, [], ['dynamic_grainsize_mode'], ['src'], 'au_'),
+        (ST, r'static_partition_type\( const static_partitioner& \)', 'static_ctor_0(%s)' % SP, [], ['linear_affinity_mode'], [], 'st_'),
+        (ST, r'static_partition_type\( static_partition_type& p, const proportional_split& split_obj \)', 'static_ctor_p(%s, struct part* p, const struct proportional_split* split_obj)' % SP, [], ['linear_affinity_mode'], ['p', 'split_obj'], 'st_'),
+    )
+    protos = []
+    for CL, sig, csig, order, bases, rparams, tag in table:
+        sl = slice_ctor(PT, sig, CL)
+        note(sl, csig.split('(')[0])
+        txt = base_names(sl.text)
+        # a base initialiser that the list does not mention is the base's default constructor (C++ rule)
+        t = ctor_c(rw, _retext(sl, txt), csig, order, bases=bases, cname=csig.split('(')[0], tag=tag)
+        for b in bases:
+            if ('INIT_%s%s_' % (tag, b)) not in t:
+                t = t.replace('{\n', '{\n    INIT_%s%s_0(self);\n' % (tag, b), 1)
+                rw.fired['implicit default construction of the base class made explicit'] = rw.fired.get('implicit default construction of the base class made explicit', 0) + 1
+        t = tags(t)
+        t = common_rules(t)
+        t = refs(rw, t, rparams)
+        t = rw.sub(t, r'(INIT_\w+\(self, )|(?<![\w.>])(%s)\b(?!\s*\()' % '|'.join(M_ALL), lambda m: m.group(1) or 'self->' + m.group(2), 0, name='field')
+        t = rw.sub(t, r'\(\*ap\)\.resize\(factor\);', 'affinity_partitioner_base_resize(ap, AFFINITY_FACTOR);', 0, name='method on the reference parameter (sliced separately)')
+        t = rw.sub(t, r'(?<![\w.>])factor_power \+ 1', 'factor_power + 1', 0, name='class constant')
+        t = rw.sub(t, r'\(factor&\(factor-1\)\)==0', '(AFFINITY_FACTOR&(AFFINITY_FACTOR-1))==0', 0, name='class constant')
+        t = rw.sub(t, r'(INIT_dg_my_delay_1\(self, )(begin|pass)\)', r'\1DELAY_\2)', 0, name='enumerator of my_delay')
+        t = rw.asserts(t, 0)
+        protos.append('void ' + csig + ';')
+        out.append(rw.std(t))
+    # ---- affinity_partitioner_base::resize ---------------------------------------------------------------------------------------
+    AB = r'class affinity_partitioner_base: no_copy \{'
+    s = slice_block(PT, r'void resize\(unsigned factor\)', within=AB)
+    note(s, 'affinity_partitioner_base::resize')
+    t = _sig(rw, s, 'void affinity_partitioner_base_resize(struct affinity_partitioner_base* self, unsigned factor)', 'affinity_partitioner_base_resize')
+    t = rw.sub(t, r'(?<![\w.>:])max_concurrency\(\)', 'STUB_max_concurrency()', 0, name='callee stub (this_task_arena::max_concurrency)')
+    t = rw.sub(t, r'\br1::cache_aligned_deallocate\(', 'STUB_cache_aligned_deallocate(', 0, name='callee stub')
+    t = rw.sub(t, r'\br1::cache_aligned_allocate\(', 'STUB_cache_aligned_allocate(', 0, name='callee stub (throwing allocator: success assumed)')
+    t = rw.sub(t, r'\bstd::fill_n\(', 'STUB_fill_n(', 0, name='callee stub (std::fill_n)')
+    t = rw.fields(t, ['my_array', 'my_size'], 0)
+    t = rw.casts(t)
+    out.append(rw.std(t))
+    # ---- note_affinity / spawn_task / check_being_stolen --------------------------------------------------------------------------
+    s = slice_block(PT, r'void note_affinity\(slot_id id\)', within=AP)
+    note(s, 'affinity_partition_type::note_affinity')
+    t = _sig(rw, s, 'void affinity_note_affinity(%s, slot_id id)' % SP, 'affinity_note_affinity')
+    out.append(rw.fields(t, M_ALL, 0))
+    for CL, cfn in ((AP, 'affinity_spawn_task'), (LA, 'linear_spawn_task')):
+        s = slice_block(PT, r'void spawn_task\(task& t, task_group_context& ctx\)', within=CL)
+        note(s, cfn)
+        t = _sig(rw, s, 'void %s(%s, task* t, task_group_context* ctx)' % (cfn, SP), cfn)
+        t = common_rules(t)
+        t = rw.sub(t, r'(?<![\w.>:])spawn\(t, ctx, ', 'SPAWN_AFF(t, ctx, ', 0, name='callee stub (r1::spawn with affinity)')
+        t = rw.sub(t, r'(?<![\w.>:])spawn\(t, ctx\)', 'SPAWN_ANY(t, ctx)', 0, name='callee stub (r1::spawn)')
+        t = rw.sub(t, r'(?<![\w.>])my_head / factor\b', 'my_head / AFFINITY_FACTOR', 0, name='class constant')
+        t = rw.fields(t, M_ALL, 0)
+        out.append(rw.std(rw.fcasts(t, ['slot_id'])))
+    s = slice_block(PT, r'bool check_being_stolen\(Task &t, const execution_data& ed\)', within=DG)
+    note(s, 'dynamic_grainsize_mode::check_being_stolen')
+    t = _sig(rw, s, 'bool dyn_check_being_stolen(%s, struct start_task* t, const execution_data* ed)' % SP, 'dyn_check_being_stolen')
+    t = cxx2c.cpp_resolve(t, {'__TBB_USE_OPTIONAL_RTTI': 0}, 'check_being_stolen')
+    t = common_rules(t)
+    t = rw.sub(t, r'\bis_stolen_task\(ed\)', 'STUB_is_stolen_task(ed)', 0, name='callee stub (execution_slot != original_slot)')
+    t = rw.sub(t, r'\bt\.my_parent->m_ref_count\b', 'ATOMIC_LOAD(t->my_parent->m_ref_count)', 0, name='implicit atomic load made explicit')
+    t = rw.sub(t, r'\btree_node::mark_task_stolen\(t\);', 'STUB_mark_task_stolen(t);', 0, name='callee stub (tree_node::mark_task_stolen: sets the parent tree node\'s m_child_stolen)')
+    t = rw.fields(t, M_ALL, 0)
+    out.append(rw.std(t))
+    common.write(ctx, 'part_ctors.inc', '\n'.join(protos) + '\n' + '\n'.join(out) + '\n')
+    fired['partition constructors'] = rw.fired
+
+
+# ---------------------------------------------------------------------------------------------------------------------
+# blocked_nd_range.h
+# ---------------------------------------------------------------------------------------------------------------------
+def extract_nd(ctx, sliced, fired):
+    rw = Rewriter('blocked_nd_range')
+    CL = r'class blocked_nd_range_impl<Value, N, detail::index_sequence<Is\.\.\.>> \{'
+    if not re.search(r'std::array<dim_range_type, N> my_dims;', slice_block(ND, CL).text):
+        raise ExtractionBreak('blocked_nd_range_impl: my_dims is no longer std::array<dim_range_type, N>')
+    out = []
+
+    def note(sl, what):
+        sliced.append('%s:%d %s' % (sl.rel, sl.line, what))
+
+    def lambdas(t, prefix):
+        """[](const dim_range_type& a[, const dim_range_type& b]) { body } -> a static C function placed in front; the call site gets the function's name"""
+        fns = []
+
+        def one(m):
+            params = [p.strip() for p in m.group(1).split(',')]
+            names = [re.sub(r'^const dim_range_type&\s*', '', p) for p in params]
+            body = m.group(2)
+            for n in names:
+                body = re.sub(r'\b%s\.(size|grainsize|empty|is_divisible)\(\)' % n, r'blocked_range_\1(%s)' % n, body)
+            fn = '%s_%d' % (prefix, len(fns) + 1)
+            fns.append('static bool %s(%s) {%s}' % (fn, ', '.join('struct blocked_range* ' + n for n in names), body))
+            return fn
+        t, n = re.subn(r'(?s)\[\]\(((?:const dim_range_type& \w+(?:,\s*)?)+)\)\s*\{(.*?)\}', one, t)
+        rw.fired['lambda -> static function (passed by name)'] = rw.fired.get('lambda -> static function (passed by name)', 0) + n
+        return t, fns
+
+    def arr(t):
+        t = rw.sub(t, r'((?:\w+(?:->|\.))?my_dims)\.(begin|end)\(\)', lambda m: 'ARR_%s(%s)' % (m.group(2).upper(), m.group(1)), 0, name='std::array::begin/end -> ARR_BEGIN/ARR_END')
+        return t
+    for nm, sig in (('is_divisible', r'bool is_divisible\(\) const'), ('empty', r'bool empty\(\) const')):
+        sl = slice_block(ND, sig, within=CL)
+        note(sl, 'blocked_nd_range::' + nm)
+        t = _sig(rw, sl, 'bool blocked_nd_range_%s(struct blocked_nd_range* self)' % nm, 'blocked_nd_range_' + nm)
+        t, fns = lambdas(t, 'nd_%s_pred' % nm)
+        t = rw.sub(t, r'\bstd::(any_of|all_of|none_of)\(', r'STD_\1(', 0, name='callee stub (std::any_of / all_of / none_of: models in the harness)')
+        t = rw.fields(t, ['my_dims'], 0)
+        out += [rw.std(rw.fcasts(f, ['double'])) for f in fns] + [rw.std(arr(t))]
+    sl = slice_block(ND, r'void do_split\(blocked_nd_range_impl& r, split_type proportion\)', within=CL)
+    note(sl, 'blocked_nd_range::do_split<split_type>')
+    t = _sig(rw, sl, 'void blocked_nd_range_do_split(struct blocked_nd_range* self, struct blocked_nd_range* r, SPLIT_T proportion)', 'blocked_nd_range_do_split')
+    t = rw.sub(t, r'(?s)static_assert\(\(std::is_same<split_type, split>::value \|\| std::is_same<split_type, proportional_split>::value\),\s*"[^"]*"\);', 'RG_NOP();', 0, name='static_assert on the tag type -> RG_NOP')
+    t, fns = lambdas(t, 'nd_dim_less')
+    t = rw.sub(t, r'\bstd::max_element\(', 'STD_max_element(', 0, name='callee stub (std::max_element: model in the harness)')
+    t = rw.sub(t, r'\bauto (my_it|r_it) =', r'struct blocked_range* \1 =', 0, name='auto')
+    t = rw.sub(t, r'\bdim_range_type::do_split\(\*r_it, proportion\)', 'DIM_DO_SPLIT(r_it, proportion)', 0, name='static member call (blocked_range::do_split: sliced separately)')
+    t = rw.sub(t, r'\br\.is_divisible\(\)', 'blocked_nd_range_is_divisible(r)', 0, name='method')
+    t = rw.sub(t, r'\br\.my_dims\b', 'r->my_dims', 0, name='ref-param')
+    t = rw.fields(t, ['my_dims'], 0)
+    t = arr(t)
+    t = rw.asserts(t, 0)
+    out += [rw.std(rw.fcasts(f, ['double'])) for f in fns] + [rw.std(t)]
+    for tag, sig in (('p', r'blocked_nd_range_impl\(blocked_nd_range_impl& r, proportional_split proportion\) :'), ('s', r'blocked_nd_range_impl\(blocked_nd_range_impl& r, split proportion\) :')):
+        sl = slice_ctor(ND, sig, CL)
+        note(sl, 'blocked_nd_range splitting constructor (%s)' % ('proportional_split' if tag == 'p' else 'split'))
+        t = ctor_c(rw, sl, 'blocked_nd_range_ctor_%s(struct blocked_nd_range* self, struct blocked_nd_range* r, SPLIT_T proportion)' % tag, ['my_dims'], cname='blocked_nd_range', tag='nd_')
+        t = rw.sub(t, r'(?<![\w.>])do_split\(r, proportion\);', 'blocked_nd_range_do_split(self, r, proportion);', 0, name='method')
+        t = rw.sub(t, r'INIT_nd_my_dims_1\(self, r\.my_dims\)', 'INIT_nd_my_dims_1(self, r->my_dims)', 0, name='ref-param')
+        out.append(t)
+    common.write(ctx, 'nd_range.inc', '\n'.join(out) + '\n')
+    fired['blocked_nd_range'] = rw.fired
+
+
+# ---------------------------------------------------------------------------------------------------------------------
+# parallel_for.h: struct start_for (constructors, run, offer_work_impl, spawn_self, run_body, execute, cancel, finalize) + node / tree_node / wait_node constructors
+# ---------------------------------------------------------------------------------------------------------------------
+SF_MEMBERS = ['my_range', 'my_body', 'my_parent', 'my_partition', 'my_allocator']
+
+
+def extract_start_for(ctx, sliced, fired):
+    rw = Rewriter('start_for')
+
+    def note(sl, what):
+        sliced.append('%s:%d %s' % (sl.rel, sl.line, what))
+
+    def fields(t):
+        return rw.fields(t, SF_MEMBERS, 0)
+
+    def calls(t):
+        t = task_calls(rw, t)
+        t = rw.sub(t, r'\bsplit\(\)', 'SPLIT_TAG', 0, name='split() tag object')
+        return t
+    out = []
+    # ---- node / tree_node / wait_node constructors (partitioner.h) ----
+    ncls = slice_block(PT, r'struct node \{')
+    order = member_order(ncls.text, ['my_parent', 'm_ref_count'], 'node')
+    sl = slice_ctor(PT, r'node\(node\* parent, int ref_count\) :', r'struct node \{')
+    note(sl, 'node::node(parent, ref_count)')
+    out.append(rw.asserts(ctor_c(rw, sl, 'node_ctor(struct node* self, struct node* parent, int ref_count)', order, cname='node', tag='n_'), 0))
+    tcls = slice_block(PT, r'struct tree_node : public node \{')
+    order = member_order(tcls.text, ['m_allocator', 'm_child_stolen'], 'tree_node')
+    sl = slice_ctor(PT, r'tree_node\(node\* parent, int ref_count, small_object_allocator& alloc\)', r'struct tree_node : public node \{')
+    note(sl, 'tree_node::tree_node(parent, ref_count, alloc)')
+    t = ctor_c(rw, sl, 'tree_node_ctor(struct node* self, struct node* parent, int ref_count, small_object_allocator* alloc)', order, bases=['node'], defaults=nsdmi(tcls.text, ['m_child_stolen']), cname='tree_node', tag='n_')
+    out.append(refs(rw, t, ['alloc']))
+    wcls = slice_block(PT, r'struct wait_node : node \{')
+    order = member_order(wcls.text, ['m_wait'], 'wait_node')
+    sl = slice_ctor(PT, r'wait_node\(\)', r'struct wait_node : node \{')
+    note(sl, 'wait_node::wait_node()')
+    out.append(ctor_c(rw, sl, 'wait_node_ctor(struct node* self)', order, bases=['node'], defaults=nsdmi(wcls.text, ['m_wait']), cname='wait_node', tag='n_'))
+    # ---- start_for ----
+    SF = r'struct start_for : public task \{'
+    scls = slice_block(PF, SF)
+    order = member_order(scls.text, SF_MEMBERS, 'start_for')
+    sl = slice_ctor(PF, r'start_for\( const Range& range, const Body& body, Partitioner& partitioner, small_object_allocator& alloc \) :', SF)
+    note(sl, 'start_for root constructor')
+    t = ctor_c(rw, sl, 'start_for_ctor_root(struct start_for* self, const Range* range, const Body* body, Partitioner* partitioner, small_object_allocator* alloc)', order, cname='start_for', tag='sf_')
+    out.append(refs(rw, calls(t), ['range', 'body', 'partitioner', 'alloc']))
+    sl = slice_ctor(PF, r'start_for\( start_for& parent_, typename Partitioner::split_type& split_obj, small_object_allocator& alloc \) :', SF)
+    note(sl, 'start_for splitting constructor')
+    t = ctor_c(rw, sl, 'start_for_ctor_split(struct start_for* self, struct start_for* parent_, split_type* split_obj, small_object_allocator* alloc)', order, cname='start_for', tag='sf_')
+    t = rw.sub(t, r'get_range_split_object<Range>\(', 'STUB_get_range_split_object(', 0, name='callee stub (selects split / proportional_split for the Range)')
+    out.append(refs(rw, calls(t), ['parent_', 'split_obj', 'alloc']))
+    sl = slice_ctor(PF, r'start_for\( start_for& parent_, const Range& r, depth_t d, small_object_allocator& alloc \) :', SF)
+    note(sl, 'start_for demand constructor')
+    t = ctor_c(rw, sl, 'start_for_ctor_demand(struct start_for* self, struct start_for* parent_, const Range* r, depth_t d, small_object_allocator* alloc)', order, cname='start_for', tag='sf_')
+    t = calls(t)
+    t = rw.sub(t, r'(?<![\w.>])my_partition\.align_depth\(\s*d\s*\);', 'Partition_align_depth(&self->my_partition, d);', 0, name='member-object method')
+    out.append(refs(rw, t, ['parent_', 'r', 'alloc']))
+    sl = slice_block(PF, r'static void run\(const Range& range, const Body& body, Partitioner& partitioner, task_group_context& context\)', within=SF)
+    note(sl, 'start_for::run(range, body, partitioner, context)')
+    t = _sig(rw, sl, 'void start_for_run4(const Range* range, const Body* body, Partitioner* partitioner, task_group_context* context)', 'start_for_run4')
+    t = rw.sub(t, r'\brange\.empty\(\)', 'Range_empty(range)', 0, name='Range::empty()')
+    t = rw.sub(t, r'\bwait_node wn;', 'wait_node wn; WAIT_NODE_CTOR(wn);', 0, name='default-constructed wait_node')
+    t = calls(t)
+    t = rw.sub(t, r'start_for& for_task = \*alloc\.new_object<start_for>\(range, body, partitioner, alloc\);', 'struct start_for* for_task_p = NEW_start_for_root(alloc, range, body, partitioner, alloc);', 0,
+               name='alloc.new_object<T>(args) -> NEW_T(alloc, args): allocate, then the sliced constructor (reference local -> pointer)')
+    t = rw.sub(t, r'\bfor_task\.my_parent\b', 'for_task_p->my_parent', 0, name='reference local -> pointer')
+    t = rw.sub(t, r'execute_and_wait\(for_task, ', 'EXECUTE_AND_WAIT((*for_task_p), ', 0, name='callee stub (r1::execute_and_wait)')
+    out.append(refs(rw, t, ['range', 'body', 'partitioner', 'context']))
+    sl = slice_block(PF, r'static void run\(const Range& range, const Body& body, Partitioner& partitioner\)', within=SF)
+    note(sl, 'start_for::run(range, body, partitioner)')
+    t = _sig(rw, sl, 'void start_for_run3(const Range* range, const Body* body, Partitioner* partitioner)', 'start_for_run3')
+    t = rw.sub(t, r'task_group_context context\(PARALLEL_FOR\);', 'task_group_context context; CONTEXT_CTOR(context, PARALLEL_FOR);', 0, name='local context object + constructor')
+    t = rw.sub(t, r'(?<![\w.>])run\(range, body, partitioner, context\);', 'RUN4(range, body, partitioner, context);', 0, name='static member call')
+    out.append(refs(rw, t, ['range', 'body', 'partitioner']))
+    sl = slice_block(PF, r'void run_body\( Range &r \)', within=SF)
+    note(sl, 'start_for::run_body')
+    t = _sig(rw, sl, 'void start_for_run_body(struct start_for* self, Range* r)', 'start_for_run_body')
+    t = rw.sub(t, r'tbb::detail::invoke\(my_body, r\);', 'BODY_INVOKE(my_body, r);', 0, name='user body invocation')
+    out.append(fields(t))
+    if not re.search(r'void offer_work\(typename Partitioner::split_type& split_obj, execution_data& ed\) \{\s*offer_work_impl\(ed, \*this, split_obj\);', scls.text) or \
+       not re.search(r'void offer_work\(const Range& r, depth_t d, execution_data& ed\) \{\s*offer_work_impl\(ed, \*this, r, d\);', scls.text):
+        raise ExtractionBreak('start_for::offer_work no longer forwards (ed, *this, split_obj) / (ed, *this, r, d) to offer_work_impl')
+    sl = slice_block(PF, r'void offer_work_impl\(execution_data& ed, Args&&\.\.\. constructor_args\)', within=SF)
+    note(sl, 'start_for::offer_work_impl<Args...> (instantiated for (start_for&, split_type&) and (start_for&, const Range&, depth_t))')
+    out.append('void start_for_spawn_self(struct start_for* self, execution_data* ed);')
+    for suffix, cparams, pack, newer in (('split', 'struct start_for* a0, split_type* a1', '(*a0), (*a1)', 'NEW_start_for_split'),
+                                          ('demand', 'struct start_for* a0, const Range* a1, depth_t a2', '(*a0), (*a1), a2', 'NEW_start_for_demand')):
+        t = _sig(rw, sl, 'void start_for_offer_work_impl_%s(struct start_for* self, execution_data* ed, %s)' % (suffix, cparams), 'offer_work_impl_' + suffix)
+        t = calls(t)
+        t = rw.sub(t, r'start_for& right_child = \*alloc\.new_object<start_for>\(ed, std::forward<Args>\(constructor_args\)\.\.\., alloc\);', 'struct start_for* right_child_p = %s(alloc, ed, %s, alloc);' % (newer, pack), 0,
+                   name='alloc.new_object<start_for>(ed, pack..., alloc) -> NEW_start_for_<ctor>(alloc, ed, pack, alloc) (reference local -> pointer)')
+        t = rw.sub(t, r'\bright_child\.my_parent\b', 'right_child_p->my_parent', 0, name='reference local -> pointer')
+        t = rw.sub(t, r'alloc\.new_object<tree_node>\(ed, ', 'NEW_tree_node(alloc, ed, ', 0, name='alloc.new_object<tree_node>(ed, args) -> NEW_tree_node(alloc, ed, args)')
+        t = rw.sub(t, r'\bright_child\.spawn_self\(ed\);', 'start_for_spawn_self(right_child_p, ed);', 0, name='method call')
+        out.append(fields(t))
+    sl = slice_block(PF, r'void spawn_self\(execution_data& ed\)', within=SF)
+    note(sl, 'start_for::spawn_self')
+    t = _sig(rw, sl, 'void start_for_spawn_self(struct start_for* self, execution_data* ed)', 'start_for_spawn_self')
+    t = calls(t)
+    t = rw.sub(t, r'(?<![\w.>])my_partition\.spawn_task\(\(\*self\), \*context\(ed\)\);', 'Partition_spawn_task(&self->my_partition, self, STUB_context(ed));', 0, name='member-object method + task context accessor')
+    out.append(t)
+    sl = slice_block(PF, r'void start_for<Range, Body, Partitioner>::finalize\(const execution_data& ed\)')
+    note(sl, 'start_for::finalize')
+    t = _sig(rw, sl, 'void start_for_finalize(struct start_for* self, const execution_data* ed)', 'start_for_finalize')
+    t = rw.sub(t, r'auto allocator = my_allocator;', 'small_object_allocator allocator = my_allocator;', 0, name='auto')
+    t = rw.sub(t, r'this->~start_for\(\);', 'STUB_task_dtor(self);', 0, name='explicit destructor call -> stub (poisons the task)')
+    t = rw.sub(t, r'fold_tree<tree_node>\(', 'STUB_fold_tree(', 0, name='callee stub (fold_tree: proved under C06)')
+    t = rw.sub(t, r'allocator\.deallocate\(this, ed\);', 'STUB_deallocate(&allocator, self, ed);', 0, name='callee stub')
+    out.append(rw.std(fields(calls(t))))
+    sl = slice_block(PF, r'task\* start_for<Range, Body, Partitioner>::execute\(execution_data& ed\)')
+    note(sl, 'start_for::execute')
+    t = _sig(rw, sl, 'task* start_for_execute(struct start_for* self, execution_data* ed)', 'start_for_execute')
+    t = rw.sub(t, r'is_same_affinity\(ed\)', 'STUB_is_same_affinity(ed)', 0, name='callee stub')
+    t = rw.sub(t, r'(?<![\w.>])my_partition\.note_affinity\(execution_slot\(ed\)\);', 'Partition_note_affinity(&self->my_partition, STUB_execution_slot(ed));', 0, name='member-object method')
+    t = rw.sub(t, r'(?<![\w.>])my_partition\.check_being_stolen\(\*this, ed\);', 'Partition_check_being_stolen(&self->my_partition, self, ed);', 0, name='member-object method')
+    t = rw.sub(t, r'(?<![\w.>])my_partition\.execute\(\*this, my_range, ed\);', 'Partition_execute(&self->my_partition, self, &self->my_range, ed);', 0, name='member-object method (the partitioner runs run_body / offer_work on this task: jobs exec.*, wb.*)')
+    t = rw.sub(t, r'(?<![\w.>])finalize\(ed\);', 'start_for_finalize(self, ed);', 0, name='method')
+    out.append(rw.std(fields(calls(t))))
+    sl = slice_block(PF, r'task\* start_for<Range, Body, Partitioner>::cancel\(execution_data& ed\)')
+    note(sl, 'start_for::cancel')
+    t = _sig(rw, sl, 'task* start_for_cancel(struct start_for* self, execution_data* ed)', 'start_for_cancel')
+    t = rw.sub(t, r'(?<![\w.>])finalize\(ed\);', 'start_for_finalize(self, ed);', 0, name='method')
+    out.append(rw.std(t))
+    common.write(ctx, 'start_for.inc', rw.std('\n'.join(out)) + '\n')
+    fired['start_for'] = rw.fired
 
 
 def build(ctx):
@@ -261,32 +1226,148 @@ def build(ctx):
                             target='range_vector<blocked_range<size_t>,8>::split_to_fill (+is_divisible, back, splitting ctor), pool shape tail=%d size=%d' % (tail, size), source=PT))
     jobs.append(Job('exec.simple', C, 'h_simple_execute', route='LC', loops=True, nloops=1, defines=['Value=size_t', 'VT_size_t'], target='simple_partition_type::execute', source=PT))
     jobs.append(Job('exec.base_auto', C, 'h_base_execute', route='LC', loops=True, nloops=1, defines=['Value=size_t', 'VT_size_t', 'AUTO_PART'], target='partition_type_base<auto_partition_type>::execute', source=PT))
+    for f in (1, 16):
+        jobs.append(Job('exec.base_prop.f%d' % f, C, 'h_base_execute_prop', route='LC', loops=True, nloops=1, defines=['Value=size_t', 'VT_size_t', 'PROP_PART', 'PART_FACTOR=%du' % f],
+                        target='partition_type_base<%s>::execute (proportional split loop; range split by the contract of br.propsplit)' % ('static_partition_type' if f == 1 else 'affinity_partition_type'), source=PT))
     for it, tag in (('signed char', 'schar'), ('unsigned char', 'uchar')):
         jobs.append(Job('pfor.index.' + tag, C, 'h_pfor', route='LF', defines=['Value=' + it.replace(' ', '_SP_'), 'Index=' + it.replace(' ', '_SP_'), 'IT_' + tag, 'PFOR'], timeout=600, unwind=3,
                         checks=['--bounds-check', '--pointer-check', '--div-by-zero-check'],
                         target='parallel_for_impl<%s> (both overloads) + parallel_for_body_wrapper index arithmetic' % it, source=PF))
     for dom, dd in (('full', []),):   # a restricted-domain twin (extents <= 4096) still times out (IEEE double multiply on SAT): dropped, see DESIGN
         bd = dom == 'small'
-        jobs.append(Job('br2d.dim.' + dom, C, 'h_br2d', route='BD' if bd else 'LF', bounded=bd, bound_text='extents and grainsizes <= 4096 (IEEE double products exact)' if bd else None,
+        jobs.append(Job('br2d.dim.' + dom, C, 'h_br2d', route='BD' if bd else 'LF', bounded=bd, bound_text='extents and grainsizes <= 255 (IEEE double products exact)' if bd else None,
                         defines=['Value=size_t', 'VT_size_t', 'ND'] + dd, timeout=900, target='blocked_range2d::do_split dimension choice [IEEE double], domain: ' + dom, source=BR2))
-        jobs.append(Job('br3d.dim.' + dom, C, 'h_br3d', route='BD' if bd else 'LF', bounded=bd, bound_text='extents and grainsizes <= 4096 (IEEE double products exact)' if bd else None,
+        jobs.append(Job('br3d.dim.' + dom, C, 'h_br3d', route='BD' if bd else 'LF', bounded=bd, bound_text='extents and grainsizes <= 255 (IEEE double products exact)' if bd else None,
                         defines=['Value=size_t', 'VT_size_t', 'ND'] + dd, timeout=900, target='blocked_range3d::do_split dimension choice [IEEE double], domain: ' + dom, source=BR3))
+
+    # ---- parallel_for_each ---------------------------------------------------------------------------------------------------
+    T = ['Value=size_t', 'VT_size_t', 'TASKS', 'PFE']
+    for kind in ('input', 'forward'):
+        for fr, ftag in ((0, 'plain'), (1, 'feeder')):
+            d = T + ['PFE_' + kind.upper()] + (['FEEDER_REQUIRED'] if fr else [])
+            jobs.append(Job('pfe.iter.%s.%s' % (kind, ftag), C, 'h_pfe_iter', route='LF', defines=d + ['PFE_ITER'], source=PFE,
+                            target='for_each_iteration_task (%s blocks, body %s feeder): constructor, execute, cancel, finalize + parallel_for_each_operator_selector::call' % (kind, 'with' if fr else 'without')))
+            jobs.append(Job('pfe.block.%s.%s' % (kind, ftag), C, 'h_pfe_block', route='LW', unwind=10, defines=d + ['PFE_BLOCK'], source=PFE,
+                            target='%s_block_handling_task: constructor, execute, cancel, finalize, destructor (body %s feeder)' % (kind, 'with' if fr else 'without')))
+    for kind in ('input', 'forward', 'random'):
+        for fr, ftag in ((0, 'plain'), (1, 'feeder')):
+            d = T + ['PFE_' + kind.upper(), 'PFE_ROOT'] + (['FEEDER_REQUIRED'] if fr else [])
+            jobs.append(Job('pfe.root.%s.%s' % (kind, ftag), C, 'h_pfe_root', route='LW', unwind=10, defines=d, source=PFE, inputs=['IN_first', 'IN_last'],
+                            target='for_each_root_task<%s iterators>::execute + for_each_root_task_base constructor/cancel + feeder_holder (body %s feeder)%s' % (
+                                kind, 'with' if fr else 'without', '' if kind == 'random' else ' + block constructor')))
+    jobs.append(Job('pfe.run', C, 'h_pfe_run', route='LF', unwind=10, defines=T + ['PFE_FORWARD', 'PFE_ROOT'], source=PFE, target='run_parallel_for_each + for_each_root_task_base constructor'))
+    jobs.append(Job('pfe.feeder.add', C, 'h_pfe_feeder_add', route='LF', defines=T + ['PFE_FORWARD', 'PFE_FEEDER', 'FEEDER_REQUIRED'], source=PFE,
+                    target='feeder_impl::internal_add_copy / internal_add_copy_impl / internal_add_move + feeder_item_task constructor'))
+    jobs.append(Job('pfe.feeder.task', C, 'h_pfe_feeder_task', route='LF', defines=T + ['PFE_FORWARD', 'PFE_FEEDER', 'FEEDER_REQUIRED'], source=PFE,
+                    target='feeder_item_task::execute / cancel / finalize / call (both overloads)'))
+    for fr, ftag in ((0, 'plain'), (1, 'feeder')):
+        jobs.append(Job('pfe.wrapper.' + ftag, C, 'h_pfe_wrapper', route='LC', loops=True, nloops=1, defines=T + ['PFE_RANDOM', 'PFE_WRAP'] + (['FEEDER_REQUIRED'] if fr else []), source=PFE,
+                        inputs=['IN_first', 'IN_b', 'IN_e', 'IN_k'], target='parallel_for_each parallel_for_body_wrapper::operator() (random-access iterators), any chunk [begin,end)'))
+
+    # ---- parallel_invoke -------------------------------------------------------------------------------------------------------
+    TI = ['Value=size_t', 'VT_size_t', 'TASKS', 'INVOKE']
+    jobs.append(Job('invoke.invoker.root', C, 'h_inv_invoker_root', route='LF', defines=TI + ['INV_SEP'], source=PI, target='function_invoker<F, invoke_root_task>: constructor, execute, cancel + invoke_root_task constructor/release'))
+    jobs.append(Job('invoke.subroot.ctor', C, 'h_inv_subroot_ctor', route='LF', defines=TI + ['INV_SUB'], source=PI, target='invoke_subroot_task constructor (+ function_invoker<F, invoke_subroot_task> constructor)'))
+    jobs.append(Job('invoke.subroot.execute', C, 'h_inv_subroot_execute', route='RG', defines=TI + ['INV_SUB'], source=PI, target='invoke_subroot_task::execute / release / finalize (against concurrently finishing children)'))
+    jobs.append(Job('invoke.subroot.child', C, 'h_inv_subroot_child', route='RG', defines=TI + ['INV_SUB'], source=PI, target='function_invoker<F, invoke_subroot_task>::execute / cancel + invoke_subroot_task::release / finalize (a child finishing against its siblings)'))
+    jobs.append(Job('invoke.subroot.cancel', C, 'h_inv_subroot_cancel', route='RG', defines=TI + ['INV_SUB'], source=PI, target='invoke_subroot_task::cancel / finalize'))
+    for n in (1, 2, 3):
+        jobs.append(Job('invoke.sep.%d' % n, C, 'h_inv_sep', route='LF', defines=TI + ['INV_SEP', 'SEP_N=%d' % n], source=PI, target='invoke_recursive_separation(%d function%s)' % (n, '' if n == 1 else 's')))
+    jobs.append(Job('invoke.sep.variadic', C, 'h_inv_sep_n', route='LF', defines=TI + ['INV_SEP', 'SEP_N=4'], source=PI, inputs=['IN_base', 'IN_n'],
+                    target='invoke_recursive_separation(f1, f2, f3, fs...): 3-way split + recursion on the rest (induction step over the pack length) + invoke_subroot_task constructor'))
+    jobs.append(Job('invoke.impl', C, 'h_inv_impl', route='LF', defines=TI + ['INV_SEP', 'SEP_N=4'], source=PI, inputs=['IN_base', 'IN_n'], target='parallel_invoke_impl (with a user context / with its own context)'))
+
+
+    # ---- work_balance as a whole (modular: split_to_fill by its contract) -----------------------------------------------------------
+    jobs.append(Job('rv.abstraction', C, 'h_rv_abstraction', route='LW', unwind=10, defines=['Value=size_t', 'VT_size_t'], source=PT, inputs=['IN_b', 'IN_e', 'IN_g'],
+                    target='range_vector back/front/size/empty on every pool that satisfies the representation invariant: the abstract view (size, end of back, begin of front) used by wb.*'))
+    for tag, dd, what in (('affinity', [], 'dynamic_grainsize_mode::check_for_demand (affinity partitioner)'), ('auto', ['AUTO_PART'], 'auto_partition_type::check_for_demand')):
+        jobs.append(Job('wb.' + tag, C, 'h_work_balance_c', route='LC', loops=True, nloops=1, unwind=10, timeout=600, defines=['Value=size_t', 'VT_size_t', 'WBC'] + dd, source=PT, inputs=['IN_b', 'IN_e', 'IN_g'],
+                        target='dynamic_grainsize_mode::work_balance as a whole + %s; the range pool by its contracts (jobs rv.*)' % what))
+
+    # ---- partition objects: constructor chains, affinity map, check_being_stolen ------------------------------------------------------
+    TA = ['Value=size_t', 'VT_size_t', 'TASKS', 'AFF']
+    jobs.append(Job('aff.ctor', C, 'h_aff_ctor', route='LF', defines=TA + ['KIND_AFFINITY'], source=PT, inputs=['IN_P', 'IN_tid'],
+                    target='affinity_partition_type(affinity_partitioner_base&) + base constructors + affinity_partitioner_base::resize + get_initial_partition_head / get_initial_auto_partitioner_divisor'))
+    jobs.append(Job('aff.split', C, 'h_aff_split', route='LF', defines=TA + ['KIND_AFFINITY'], source=PT, inputs=['IN_div', 'IN_head', 'IN_max'], timeout=600,
+                    target='affinity_partition_type splitting constructors (split / proportional_split) through dynamic_grainsize_mode, linear_affinity_mode, proportional_mode, adaptive_mode'))
+    jobs.append(Job('aff.note_spawn', C, 'h_aff_note', route='LF', defines=TA + ['KIND_AFFINITY'], source=PT, inputs=['IN_div', 'IN_head', 'IN_max'], target='affinity_partition_type::note_affinity / spawn_task (map index arithmetic)'))
+    jobs.append(Job('aff.stolen.affinity', C, 'h_check_being_stolen', route='LF', defines=TA + ['KIND_AFFINITY'], source=PT, inputs=['IN_div'], target='dynamic_grainsize_mode::check_being_stolen (factor 16)'))
+    jobs.append(Job('aff.stolen.auto', C, 'h_check_being_stolen', route='LF', defines=TA + ['KIND_AUTO'], source=PT, inputs=['IN_div'], target='dynamic_grainsize_mode::check_being_stolen (factor 1)'))
+    jobs.append(Job('aff.auto_ctor', C, 'h_auto_ctor', route='LF', defines=TA + ['KIND_AUTO'], source=PT, inputs=['IN_P', 'IN_div'], target='auto_partition_type constructors (root / split) + base constructors'))
+    jobs.append(Job('aff.static_ctor', C, 'h_static_ctor', route='LF', defines=TA + ['KIND_STATIC'], source=PT, inputs=['IN_P', 'IN_div', 'IN_head', 'IN_max'], timeout=600,
+                    target='static_partition_type constructors (root / proportional split) + linear_affinity_mode::spawn_task'))
+
+    # ---- blocked_nd_range ---------------------------------------------------------------------------------------------------------
+    TN = ['Value=size_t', 'VT_size_t', 'TASKS', 'NDR']
+    for n in (1, 2, 3, 4):
+        jobs.append(Job('nd.split.n%d' % n, C, 'h_nd_split', route='LW', unwind=6, defines=TN + ['ND_N=%d' % n, 'ND_ANY_CHOICE'], source=ND,
+                        target='blocked_nd_range<size_t,%d> splitting constructors + do_split, for every choice of a divisible dimension (split / proportional_split)' % n))
+    jobs.append(Job('nd.any_of.n3', C, 'h_nd_any_of', route='LW', unwind=6, defines=TN + ['ND_N=3'], source=ND, target='blocked_nd_range<size_t,3>::is_divisible / empty'))
+    jobs.append(Job('nd.dim.small', C, 'h_nd_dim', route='BD', bounded=True, bound_text='extents and grainsizes <= 255 (IEEE double products exact)', unwind=6, defines=TN + ['ND_N=2', 'ND_SMALL=255'], source=ND, timeout=200, solver='cadical',
+                    target='blocked_nd_range<size_t,2>::do_split dimension choice [IEEE double], domain: extents and grains <= 255'))
+    jobs.append(Job('nd.dim.full', C, 'h_nd_dim', route='LF', unwind=6, defines=TN + ['ND_N=2'], source=ND, timeout=900, inputs=['IN_db', 'IN_de', 'IN_dg'],
+                    target='blocked_nd_range<size_t,2>::do_split dimension choice (std::max_element over size/grainsize ratios) [IEEE double], domain: full'))
+
+    # ---- start_for ------------------------------------------------------------------------------------------------------------------
+    TS = ['Value=size_t', 'VT_size_t', 'TASKS', 'SFOR']
+    for nm, h, what in (('execute', 'h_sfor_execute', 'start_for::execute + finalize'), ('cancel', 'h_sfor_cancel', 'start_for::cancel + finalize'),
+                        ('offer_work.split', 'h_sfor_offer_split', 'start_for::offer_work_impl<start_for&, split_type&> + splitting constructor + tree_node / node constructors + spawn_self'),
+                        ('offer_work.demand', 'h_sfor_offer_demand', 'start_for::offer_work_impl<start_for&, const Range&, depth_t> + demand constructor + tree_node / node constructors + spawn_self'),
+                        ('run', 'h_sfor_run4', 'start_for::run(range, body, partitioner, context) + root constructor + wait_node constructor'),
+                        ('run.own_context', 'h_sfor_run3', 'start_for::run(range, body, partitioner)'), ('run_body', 'h_sfor_run_body', 'start_for::run_body')):
+        jobs.append(Job('sfor.' + nm, C, h, route='LF', defines=TS, source=PF, target=what))
     return {
         'jobs': jobs, 'sliced': sliced, 'fired': fired,
-        'trusted': ['start_for::offer_work / run_body / spawn (contract stubs: offer_work constructs the right-hand task with the REAL splitting constructors; that a spawned task runs once is C01)',
+        'trusted': ['start_for::offer_work / run_body as seen by the partitioners (contract stubs in exec.* / wb.*: offer_work constructs the right-hand task with the REAL splitting constructors; start_for itself: sfor.*); that a spawned task runs once is C01',
                     'get_initial_auto_partitioner_divisor() >= 4 (r1 export max_concurrency() >= 1)', 'is_stolen_task / is_peer_stolen / cancellation: nondeterministic stubs (every steal pattern)',
-                    'CBMC IEEE-754 float/double semantics', 'cxx2c rewriter up to translation validation'],
-        'drops': ['template headers (Value/Index bound per job; Range:=blocked_range<size_t>; Partition bound per job)', 'references -> pointers', 'constructor init lists -> assignments in declared member order',
-                  'placement new / explicit destructor on trivially copyable ranges -> assignment / DESTROY marker', 'tag parameters (split) dropped', '__TBB_ASSERT -> proof obligation'],
-        'not_decided': ['parallel_for_each / feeder (iterator-generic, lambdas)', 'parallel_invoke (variadic)', 'start_for::offer_work allocation code', 'blocked_nd_range (std::array + algorithms)',
-                        'that spawned tasks run exactly once (C01)'],
+                    'CBMC IEEE-754 float/double semantics', 'cxx2c rewriter up to translation validation',
+                    'r1::spawn / r1::execute_and_wait: a spawned or bypassed task is executed (or cancelled) exactly once (C01); execute_and_wait returns when the given wait_context has dropped to zero',
+                    'wait_context / wait_context_vertex reserve(n) / release(n): atomic add / subtract on one counter (detail/_task.h); r1::get_thread_reference_vertex(v): a per-thread vertex that holds one reference on v while its own count is positive',
+                    'small_object_allocator::new_object = allocate + the constructor (the constructor called is the sliced one); delete_object = the destructor (sliced where it exists) + free',
+                    'aligned_space<T,N>::begin()/end() (end() == begin() + N is checked textually by the extractor)',
+                    'std::max_element / std::any_of (libstdc++ semantics, modelled in the harness); std::fill_n (stated for one arbitrary index); std::distance(first,last) == last - first; std::move / std::forward are value-preserving',
+                    'overload resolution and template metaprogramming: invoke_helper (rotates the last argument of parallel_invoke to the front), the choice between the 1/2/3/variadic overloads of invoke_recursive_separation by pack length, iterator_tag_dispatch, feeder_is_required, the first_priority/second_priority call overloads of feeder_item_task (both overloads are proved)',
+                    'this_task_arena::max_concurrency() >= 1 and constant while one partition object is built; current_thread_index() is not_initialized or < max_concurrency()',
+                    'range_vector contracts used by wb.*: proved on the real code by rv.ctor / rv.split_to_fill.* / rv.pop_back / rv.pop_front / rv.abstraction; the step from "holds for every pool satisfying rv_inv" to the abstract stubs is by inspection of the quoted Hoare triples',
+                    'fold_tree (join-tree unwinding and the single release of the wait): proved under C06 (job reduce.fold_tree)'],
+        'drops': ['template headers (Value/Index bound per job; Range:=blocked_range<size_t>; Partition bound per job)', 'references -> pointers', 'constructor init lists -> assignments / INIT_<class>_<member>() macros in base-then-declared member order',
+                  'placement new / explicit destructor on trivially copyable ranges -> assignment / DESTROY marker', 'tag parameters (split) dropped', '__TBB_ASSERT -> proof obligation',
+                  'ITT notifications (call_itt_task_notify) -> RG_NOP', 'local type aliases (using x = ...) -> RG_NOP', 'memory orders of atomics (SC assumed)', 'lambdas of blocked_nd_range -> named static functions passed by name',
+                  'static_assert on tag types -> RG_NOP; static_assert on pack length -> precondition check', 'function_invoker<F, WaitObject>: instantiated twice (WaitObject = invoke_root_task / invoke_subroot_task)',
+                  'variadic packs: a pack fs... is the interval [base, base+n) of function numbers; the recursive call on the rest of the pack is a contract stub (induction on the pack length)'],
+        'not_decided': ['that spawned tasks run exactly once and that execute_and_wait really waits (C01/C02)',
+                        'composition: each task-level function is proved against its own pre/post state (the post state of the producer is the pre state of the consumer, stated in the harness comments); the induction over the task tree / block sequence / pack length is an argument on paper, not a CBMC run',
+                        'parallel_for_each: public overloads (range / iterator, with / without context) and feeder::add (one-line forwards, virtual dispatch); item types that are not copy-constructible (internal_add_copy_impl(false_type) only asserts); exceptions thrown by bodies or copy constructors (C03)',
+                        'parallel_invoke: invoke_helper / parallel_invoke (argument rotation by template metaprogramming)',
+                        'blocked_nd_range: dimension choice proved only for extents and grainsizes <= 255 (bounded job nd.dim.small; IEEE double products do not finish on SAT beyond that) - above 2^52 it is wrong (F4); constructors from N ranges / from a C array',
+                        'blocked_range2d/3d: dimension choice on the exact domain (same SAT limit); proportional split of 2-D/3-D/N-D ranges only through the 1-D contract (br.propsplit)',
+                        'work_balance: termination (no decreases clause: a demand signal may repeat), the 8-bit depth budget (my_max_depth is assumed not to wrap, see assumptions); depth bookkeeping of range_vector (my_depth[]) is not part of the pool contract',
+                        'partition_type_base::execute for the proportional partitioners is proved with the 1-D proportional range split replaced by its contract (br.propsplit proves that contract for l <= 2^32 proportions only)',
+                        'affinity_partitioner_base destructor (resize(0)); the affinity hint values passed to spawn (placement only)',
+                        'parallel_for(first,last,step) for Index wider than 8 bits (F3 shown natively for int)', 'quality of the partition (balance, number of chunks): not part of the property'],
         'assumptions': ['end - begin of a blocked_range is representable in Value (the Range requirements; unspecified otherwise)',
-                        'proportions handed to ranges come from get_split(): 1 <= right <= left <= right+1'],
+                        'proportions handed to ranges come from get_split(): 1 <= right <= left <= right+1',
+                        'on entry to partition_type_base::execute the divisor of a proportional partition object is a multiple of factor or at most factor (root: aff.ctor; children of proportional splits: aff.split / exec.base_prop.*; children of demand splits get half of a divisor that exec.base_prop.* shows to be <= factor, and check_being_stolen resets a divisor < factor to 1 before execute() looks at it) - each link is proved, the chain is on paper',
+                        'my_max_depth <= 253 on entry to check_being_stolen (the depth budget grows by at most 2 per task start and 1 per demand signal; 255 is out of reach for 64-bit iteration spaces)',
+                        'parallel_for_each: the iterators obey their category (last is reachable from first by ++; an input iterator is dereferenced while it is in [first,last)); positions are modelled as size_t',
+                        'wait-reference accounting is stated per entity: an entity (root task, block task, feeder task, invoker, sub-root) holds exactly one reference on the root wait context from before it becomes runnable until after its work is done'],
     }
 
 
+import threading
+_replay_lock = threading.Lock()
+NO_RECIPE = ('aff.', 'rv.abs')       # sfor.* -> the whole-algorithm sweep (default recipe)
+
+
 def replay(ctx, jobname, failure):
-    exe = native.build([os.path.join(HERE, 'c05_replay.cpp')], os.path.join(ctx.work, 'c05_replay'), flags=['-fno-access-control'], link_tbb=True)
+    if jobname.startswith(NO_RECIPE):
+        return {'reproduced': False, 'detail': 'no native replay recipe for this job (scheduler-internal task protocol)'}
+    exe = os.path.join(ctx.work, 'c05_replay')
+    with _replay_lock:
+        if not os.path.exists(exe):          # built once per run from the CURRENT headers and src/tbb
+            native.build([os.path.join(HERE, 'c05_replay.cpp')], exe + '.tmp', flags=['-fno-access-control'], link_tbb=True)
+            os.replace(exe + '.tmp', exe)
     ins = failure.get('inputs', {}) or {}
     args = [exe, jobname] + ['%s=%s' % (k, v) for k, v in sorted(ins.items()) if isinstance(v, int)]
     rc, out = native.run(args, timeout=120)
